@@ -1,104 +1,56 @@
-import HidVerif.Proofs.CoreFrame
+import HidVerif.Proofs.CoreStop
 /-!
 # Core compiler proofs: statement lists (`cS_ok`) by induction on the fuel of `exec`
 
 Two kinds of statement lists are covered by one theorem:
 * lists without `try` (bodies of `try` blocks: they may contain defeat calls) — the conclusion
-  is a `Reach`, or `Halts` of the start state when the source semantics says *defeat*;
+  is a `Reach`, or `Halts` of the start state when the source semantics says *defeat* (inside the
+  body of a `try/stop`: a `Reach` to the handler);
 * lists at the level of the you function (`youLevel`: `try` allowed, defeat calls only inside
   `try` bodies) — these additionally need to know that the states in which the whole list can
-  end never halt, because a Turing jump looks at the whole future (`hsafe`).
+  end never halt, because a Turing jump looks at the whole future (`Safe`).
 -/
 namespace HidVerif.Core
 open HidVerif HidVerif.PSys HidVerif.Sphinx HidVerif.Gen
 
 section
-variable {p : Prog} {ck : Bool} {B : Nat} {fa : FAddr} {fns : List FDecl}
+variable {p : Prog} {ck : Bool} {B : Nat} {dA : Nat} {fa : FAddr} {fns : List FDecl}
 
-/-- what the proofs need to know about the functions of the program -/
-structure FnsOK (p : Prog) (ck : Bool) (B : Nat) (fa : FAddr) (fns : List FDecl) : Prop where
-  placed : ∀ fd ∈ fns, PlacedAt p (faddr fa fd.name) (funcCode (cxOf p ck B) fa (faddr fa fd.name) fd.params fd.body)
-  inB : ∀ fd ∈ fns, faddr fa fd.name + (funcCode (cxOf p ck B) fa (faddr fa fd.name) fd.params fd.body).length ≤ B
-  nodup : ∀ fd ∈ fns, fd.params.Nodup
-  wf : ∀ fd ∈ fns, wfS fd.params fd.body = true
-  plain : ∀ fd ∈ fns, Core.plain fd.body = true
-
-/-- faults are only defined in checked builds; a callee's stack check compares with the frame peak
-modulo the word, so the overflow verdict needs the peaks of the functions to be representable -/
-def FaultOK (ck : Bool) (fns : List FDecl) (w : Nat) : Res → Prop
-  | .div0 => ck = true
-  | .ovf => ck = true ∧ ∀ fd ∈ fns, pkS w (entryOff w fd.params) fd.body < 256 ^ w
-  | _ => True
-
-/-- what a caller must know about the end of a statement list that contains `try` -/
-def Safe (p : Prog) (B ra : Nat) (lp : Nat × Nat) (Γ : Gam) (env' : Env) (F D o pcEnd : Nat) (m : Mem) (res : Res) (s : S) : Prop :=
-  noTry s = true ∨
-    (youLevel s = true ∧ ∀ st', Post p B ra lp Γ env' F D o pcEnd m res st' → ¬ Halts (sphinx p) st')
-
-theorem Safe.sub {lp : Nat × Nat} {Γ Γ' : Gam} {env' : Env} {F D ra o o' e e' : Nat} {m m1 : Mem} {res : Res} {s k : S}
-    (h : Safe p B ra lp Γ env' F D o e m res s)
-    (hnt : noTry s = true → noTry k = true) (hyl : youLevel s = true → youLevel k = true)
-    (km : Keep p.w m m1 F)
-    (conv : ∀ st', Post p B ra lp Γ' env' F D o' e' m res st' → Post p B ra lp Γ env' F D o e m res st') :
-    Safe p B ra lp Γ' env' F D o' e' m1 res k := by
-  rcases h with h | ⟨h1, h2⟩
-  · exact Or.inl (hnt h)
-  · exact Or.inr ⟨hyl h1, fun st' hp => h2 st' (conv st' (hp.rebase km))⟩
-
-/-- what `cS_ok` concludes -/
-def Concl (p : Prog) (B ra : Nat) (lp : Nat × Nat) (Γ : Gam) (env' : Env) (F D o pc pcEnd : Nat) (m : Mem) (tr : List Ev) (res : Res) : Prop :=
-  (res = .defeat → Halts (sphinx p) ⟨pc, m⟩) ∧
-  (res ≠ .defeat → ∃ st', Reach (sphinx p) ⟨pc, m⟩ tr st' ∧ Post p B ra lp Γ env' F D o pcEnd m res st')
-
-/-- prefix a `Reach` to a conclusion about the rest -/
-theorem Concl.pre {lp : Nat × Nat} {Γ Γ' : Gam} {env' : Env} {F D ra o o' pc pc1 e e' : Nat} {m m1 : Mem} {tr0 tr : List Ev} {res : Res}
-    (r : Reach (sphinx p) ⟨pc, m⟩ tr0 ⟨pc1, m1⟩) (km : Keep p.w m m1 F)
-    (h : Concl p B ra lp Γ' env' F D o' pc1 e' m1 tr res)
-    (conv : ∀ st', Post p B ra lp Γ' env' F D o' e' m res st' → Post p B ra lp Γ env' F D o e m res st') :
-    Concl p B ra lp Γ env' F D o pc e m (tr0 ++ tr) res :=
-  ⟨fun hd => r.1 (h.1 hd), fun hn => by
-    obtain ⟨st', r2, hp⟩ := h.2 hn
-    exact ⟨st', r.trans r2, conv st' (hp.rebase km)⟩⟩
-
-theorem post_conv {lp : Nat × Nat} {Γ : Gam} {env' : Env} {F D ra o e e' : Nat} {m : Mem} {res : Res} (he : e' = e) :
-    ∀ st', Post p B ra lp Γ env' F D o e' m res st' → Post p B ra lp Γ env' F D o e m res st' := by
-  subst he; exact fun _ h => h
-
-theorem cS_ok (lib : Placed p B) (fok : FnsOK p ck B fa fns) :
-    ∀ (fuel : Nat) (F D ra : Nat) (hra : ra < 256 ^ p.w) (lp : Nat × Nat) (hlp : lp.1 < 256 ^ p.w ∧ lp.2 < 256 ^ p.w)
+theorem cS_ok (lib : Placed p B) (fok : FnsOK p ck B dA fa fns) :
+    ∀ (fuel : Nat) (F D ra : Nat) (hra : ra < 256 ^ p.w) (lp : Jt) (hlp : lp.cont < 256 ^ p.w ∧ lp.brk < 256 ^ p.w) (md : Md) (sb : Bool)
       (s : S) (Γ : Gam) (env : Env) (pc o : Nat) (m : Mem) (env' : Env) (tr : List Ev) (res : Res),
-      PlacedAt p pc (cS (cxOf p ck B) fa lp Γ pc o s) →
-      pc + (cS (cxOf p ck B) fa lp Γ pc o s).length ≤ B →
-      SInv p Γ env m F D o ra → Disj p.w Γ → wfS (Γ.map Prod.fst) s = true →
+      PlacedAt p pc (cS (cxOf p ck B dA) fa lp Γ pc o s) →
+      pc + (cS (cxOf p ck B dA) fa lp Γ pc o s).length ≤ B →
+      SInv p md Γ env m F D o ra → Disj p.w Γ → wfS lp.vd (Γ.map Prod.fst) s = true →
       pkS p.w o s ≤ D → p.w ≤ o →
       exec (256 ^ p.w) (8 * p.w) fns p.w fuel D o env s = some (env', tr, res) → FaultOK ck fns p.w res →
-      Safe p B ra lp Γ env' F D o (pc + (cS (cxOf p ck B) fa lp Γ pc o s).length) m res s →
-      Concl p B ra lp Γ env' F D o pc (pc + (cS (cxOf p ck B) fa lp Γ pc o s).length) m tr res := by
+      Safe p B dA ra lp md sb Γ env' F D o (pc + (cS (cxOf p ck B dA) fa lp Γ pc o s).length) m res s →
+      Concl p B ra lp md Γ env' F D o pc (pc + (cS (cxOf p ck B dA) fa lp Γ pc o s).length) m tr res := by
   have hw := lib.hw
   have h64 := mul_w_lt_pow p.w hw
   have hM := pow_ge2 p.w hw
   have hBM := lib.hB
   intro fuel
   induction fuel with
-  | zero => intro F D ra hra lp hlp s Γ env pc o m env' tr res _ _ _ _ _ _ _ hex; simp [exec] at hex
+  | zero => intro F D ra hra lp hlp md sb s Γ env pc o m env' tr res _ _ _ _ _ _ _ hex; simp [exec] at hex
   | succ f ih =>
-    intro F D ra hra lp hlp s Γ env pc o m env' tr res hpl hB hinv hd hwf hpk ho hex hck hs
+    intro F D ra hra lp hlp md sb s Γ env pc o m env' tr res hpl hB hinv hd hwf hpk ho hex hck hs
     have hroom := hinv.fr.room; have htop := hinv.fr.top; have hFM := hinv.fr.lt
     have hoD : o ≤ D := by have := pkS_ge p.w s o; omega
     -- a fault exit: the machine is in the `division_by_zero` stub
     have fault : ∀ (pc0 : Nat) (e0 : Nat) (env0 : Env) (m0 m' : Mem) (t : List Ev),
         Reach (sphinx p) ⟨pc0, m0⟩ t ⟨B + off_division_by_zero, m'⟩ →
-        Concl p B ra lp Γ env0 F D o pc0 e0 m0 t .div0 :=
+        Concl p B ra lp md Γ env0 F D o pc0 e0 m0 t .div0 :=
       fun _ _ _ _ m' _ r => ⟨fun h => absurd h (by decide), fun _ => ⟨⟨_, m'⟩, r, by simp [Post]⟩⟩
     -- the same for a stack overflow in a callee
     have faultO : ∀ (pc0 : Nat) (e0 : Nat) (env0 : Env) (m0 m' : Mem) (t : List Ev),
         Reach (sphinx p) ⟨pc0, m0⟩ t ⟨B + off_stack_overflow, m'⟩ →
-        Concl p B ra lp Γ env0 F D o pc0 e0 m0 t .ovf :=
+        Concl p B ra lp md Γ env0 F D o pc0 e0 m0 t .ovf :=
       fun _ _ _ _ m' _ r => ⟨fun h => absurd h (by decide), fun _ => ⟨⟨_, m'⟩, r, by simp [Post]⟩⟩
     -- a call `g(args)` at the start of the list: the callee's body by the induction hypothesis
     have hcall : ∀ (g : String) (args : List E) (trc : List Ev) (flag : Option Res) (rv : Option Nat),
-        PlacedAt p pc (cCall (cxOf p ck B) fa Γ pc o g args) →
-        pc + (cCall (cxOf p ck B) fa Γ pc o g args).length ≤ B →
+        PlacedAt p pc (cCall (cxOf p ck B dA) fa Γ pc o g args) →
+        pc + (cCall (cxOf p ck B dA) fa Γ pc o g args).length ≤ B →
         args.all (boundE (Γ.map Prod.fst)) = true → pkCall p.w o args ≤ D →
         callWith (256 ^ p.w) (8 * p.w) fns p.w (exec (256 ^ p.w) (8 * p.w) fns p.w f) D o env g args
           = some (trc, flag, rv) →
@@ -106,21 +58,21 @@ theorem cS_ok (lib : Placed p B) (fok : FnsOK p ck B fa fns) :
         (flag = some .div0 → ∃ m', Reach (sphinx p) ⟨pc, m⟩ trc ⟨B + off_division_by_zero, m'⟩) ∧
         (flag = some .ovf → ∃ m', Reach (sphinx p) ⟨pc, m⟩ trc ⟨B + off_stack_overflow, m'⟩) ∧
         (flag = none → ∃ m', Reach (sphinx p) ⟨pc, m⟩ trc
-            ⟨pc + (cCall (cxOf p ck B) fa Γ pc o g args).length, m'⟩ ∧ Keep p.w m m' (F - o) ∧
+            ⟨pc + (cCall (cxOf p ck B dA) fa Γ pc o g args).length, m'⟩ ∧ Keep p.w m m' (F - o) ∧
           ∀ v, rv = some v → m'.readLE (F - (o + p.w)) p.w = v) := by
       intro g args trc flag rv hplc hBc hba hpkc hcw hfl
       have fr := hinv.fr
       have hpkA : pkArgs p.w (o + p.w) args ≤ D := by unfold pkCall at hpkc; omega
       have hoW : o + p.w ≤ D := by unfold pkCall at hpkc; omega
-      generalize hpush : cArgs (cxOf p ck B) Γ (pc + 1) (o + p.w) args = push at *
-      have hcode : cCall (cxOf p ck B) fa Γ pc o g args =
-          [stSlot (cxOf p ck B) (o + p.w) (.imm (pc + 1 + push.length + 3))] ++ push ++
-            [.alu .add p.w (.st p.w) ((cxOf p ck B).negImm o), .j (.imm (faddr fa g)), .halt,
+      generalize hpush : cArgs (cxOf p ck B dA) Γ (pc + 1) (o + p.w) args = push at *
+      have hcode : cCall (cxOf p ck B dA) fa Γ pc o g args =
+          [stSlot (cxOf p ck B dA) (o + p.w) (.imm (pc + 1 + push.length + 3))] ++ push ++
+            [.alu .add p.w (.st p.w) ((cxOf p ck B dA).negImm o), .j (.imm (faddr fa g)), .halt,
              .alu .add p.w (.st p.w) (.imm (wrapI (256 ^ p.w) o))] := by
         simp only [cCall, hpush]; rfl
       rw [hcode] at hplc hBc ⊢
-      have hlen : ([stSlot (cxOf p ck B) (o + p.w) (.imm (pc + 1 + push.length + 3))] ++ push ++
-            [Instr.alu .add p.w (.st p.w) ((cxOf p ck B).negImm o), .j (.imm (faddr fa g)), .halt,
+      have hlen : ([stSlot (cxOf p ck B dA) (o + p.w) (.imm (pc + 1 + push.length + 3))] ++ push ++
+            [Instr.alu .add p.w (.st p.w) ((cxOf p ck B dA).negImm o), .j (.imm (faddr fa g)), .halt,
              .alu .add p.w (.st p.w) (.imm (wrapI (256 ^ p.w) o))]).length = 1 + push.length + 4 := by
         simp only [List.length_append, List.length_cons, List.length_nil]
       rw [hlen] at hBc ⊢
@@ -129,7 +81,7 @@ theorem cS_ok (lib : Placed p B) (fok : FnsOK p ck B fa fns) :
       simp only [List.length_append, List.length_cons, List.length_nil, Nat.zero_add] at hpl2 hpl3
       -- 0: the return address
       have hend : pc + 1 + push.length + 3 < 256 ^ p.w := by simp [stdlibLength] at hBM; omega
-      have s0 := st_reach (ck := ck) (B := B) hw fr (o + p.w) (.imm (pc + 1 + push.length + 3)) (pc + 1 + push.length + 3) hpl1
+      have s0 := st_reach (ck := ck) (dA := dA) (B := B) hw fr (o + p.w) (.imm (pc + 1 + push.length + 3)) (pc + 1 + push.length + 3) hpl1
         (by rw [ev_imm]; congr 1; exact Nat.mod_eq_of_lt (by unfold Prog.M; exact hend)) (by omega) (by omega)
       have k0 : Keep p.w m (m.writeLE (F - (o + p.w)) p.w (pc + 1 + push.length + 3)) (F - o) :=
         Keep.write _ _ _ _ _ _ (by omega) (by omega)
@@ -138,7 +90,7 @@ theorem cS_ok (lib : Placed p B) (fok : FnsOK p ck B fa fns) :
       have hra1 : m1.readLE (F - (o + p.w)) p.w = pc + 1 + push.length + 3 := by
         rw [← hm1, Mem.readLE_writeLE_same _ _ _ _ (by omega)]; exact Nat.mod_eq_of_lt hend
       -- the arguments
-      have hp := cArgs_ok (ck := ck) lib Γ env F D args (pc + 1) (o + p.w) m1 (by rw [hpush]; exact hpl2)
+      have hp := cArgs_ok (ck := ck) (dA := dA) lib Γ env F D args (pc + 1) (o + p.w) m1 (by rw [hpush]; exact hpl2)
         (by rw [hpush]; omega) fr1 (hinv.vars.keep k0 (Nat.le_refl _) (by omega)) hba hpkA (by omega)
       rw [hpush] at hp
       unfold callWith at hcw
@@ -199,7 +151,7 @@ theorem cS_ok (lib : Placed p B) (fok : FnsOK p ck B fa fns) :
               simp only [Option.some.injEq, Prod.mk.injEq] at hcw
               obtain ⟨rfl, rfl, rfl⟩ := hcw
               obtain ⟨hckt, hpkM⟩ := hfl .ovf rfl
-              obtain ⟨m', rso⟩ := (prologue_ok (ck := ck) lib fa (faddr fa fd.name) fd.params fd.body m3 (F - o) (D - o) fr3
+              obtain ⟨m', rso⟩ := (prologue_ok (ck := ck) (dA := dA) lib fa (faddr fa fd.name) fd.params fd.body m3 (F - o) (D - o) fr3
                 hplf hBf (hpkM fd hmem)).2 hckt (by have := fr3.room; omega)
               refine ⟨fun h => absurd h (by simp), fun _ => ⟨m', ?_⟩, fun h => absurd h (by simp)⟩
               have r3 := Reach.of_next (sys := sphinx p) s3
@@ -208,7 +160,7 @@ theorem cS_ok (lib : Placed p B) (fok : FnsOK p ck B fa fns) :
               simpa [evl] using this
             rw [if_neg hp] at hcw
             have hfit : pkS p.w (entryOff p.w fd.params) fd.body ≤ D - o := by omega
-            have hpro := (prologue_ok (ck := ck) lib fa (faddr fa fd.name) fd.params fd.body m3 (F - o) (D - o) fr3
+            have hpro := (prologue_ok (ck := ck) (dA := dA) lib fa (faddr fa fd.name) fd.params fd.body m3 (F - o) (D - o) fr3
               hplf hBf (by omega)).1 (by have := fr3.room; omega)
             have hsl3 : SlotsAt p.w m3 (F - o) (2 * p.w) vs := by
               apply SlotsAt_shift
@@ -224,20 +176,20 @@ theorem cS_ok (lib : Placed p B) (fok : FnsOK p ck B fa fns) :
             have hra3 : m3.readLE (F - o - p.w) p.w = pc + 1 + push.length + 3 := by
               rw [show F - o - p.w = F - (o + p.w) by omega, ← hra2]
               exact Mem.readLE_congr _ _ _ _ (fun x h1 _ => hrd3 x (by omega))
-            have hinv3 : SInv p (paramGam p.w (2 * p.w) fd.params) (bindEnv fd.params vs) m3 (F - o) (D - o)
-                (entryOff p.w fd.params) (pc + 1 + push.length + 3) := ⟨fr3, hvars3, hra3⟩
+            have hinv3 : SInv p .plain (paramGam p.w (2 * p.w) fd.params) (bindEnv fd.params vs) m3 (F - o) (D - o)
+                (entryOff p.w fd.params) (pc + 1 + push.length + 3) := ⟨fr3, hvars3, hra3, fun _ _ e => by cases e⟩
             have heW : p.w ≤ entryOff p.w fd.params := by unfold entryOff; rw [Nat.add_mul, Nat.one_mul]; omega
             -- the body
-            have hsplit : funcCode (cxOf p ck B) fa (faddr fa fd.name) fd.params fd.body =
+            have hsplit : funcCode (cxOf p ck B dA) fa (faddr fa fd.name) fd.params fd.body =
                 (if ck then
-                  [Instr.j (.imm (faddr fa fd.name + 5)), .alu .sub (cxOf p ck B).r1 (.st (cxOf p ck B).fp) (.st 0),
-                   .hcond .hgeu (.st (cxOf p ck B).r1) (.imm (pkS p.w (entryOff p.w fd.params) fd.body % (cxOf p ck B).M)),
+                  [Instr.j (.imm (faddr fa fd.name + 5)), .alu .sub (cxOf p ck B dA).r1 (.st (cxOf p ck B dA).fp) (.st 0),
+                   .hcond .hgeu (.st (cxOf p ck B dA).r1) (.imm (pkS p.w (entryOff p.w fd.params) fd.body % (cxOf p ck B dA).M)),
                    .j (.imm (B + off_stack_overflow)), .halt]
-                 else []) ++ cS (cxOf p ck B) fa (0, 0) (paramGam p.w (2 * p.w) fd.params) (faddr fa fd.name + prologueLen ck)
+                 else []) ++ cS (cxOf p ck B dA) fa ⟨0, 0, false⟩ (paramGam p.w (2 * p.w) fd.params) (faddr fa fd.name + prologueLen ck)
                     (entryOff p.w fd.params) fd.body := rfl
             have hpllen : (if ck then
-                  [Instr.j (.imm (faddr fa fd.name + 5)), .alu .sub (cxOf p ck B).r1 (.st (cxOf p ck B).fp) (.st 0),
-                   .hcond .hgeu (.st (cxOf p ck B).r1) (.imm (pkS p.w (entryOff p.w fd.params) fd.body % (cxOf p ck B).M)),
+                  [Instr.j (.imm (faddr fa fd.name + 5)), .alu .sub (cxOf p ck B dA).r1 (.st (cxOf p ck B dA).fp) (.st 0),
+                   .hcond .hgeu (.st (cxOf p ck B dA).r1) (.imm (pkS p.w (entryOff p.w fd.params) fd.body % (cxOf p ck B dA).M)),
                    .j (.imm (B + off_stack_overflow)), .halt]
                  else []).length = prologueLen ck := by cases ck <;> rfl
             rw [hsplit] at hplf hBf
@@ -249,13 +201,13 @@ theorem cS_ok (lib : Placed p B) (fok : FnsOK p ck B fa fns) :
             | some rb =>
               obtain ⟨envb, trb, resb⟩ := rb
               simp only [hexb] at hcw
-              have hbody := ih (F - o) (D - o) (pc + 1 + push.length + 3) hend (0, 0) ⟨by omega, by omega⟩ fd.body (paramGam p.w (2 * p.w) fd.params)
+              have hbody := ih (F - o) (D - o) (pc + 1 + push.length + 3) hend ⟨0, 0, false⟩ ⟨by show 0 < _; omega, by show 0 < _; omega⟩ .plain false fd.body (paramGam p.w (2 * p.w) fd.params)
                 (bindEnv fd.params vs) (faddr fa fd.name + prologueLen ck) (entryOff p.w fd.params) m3 envb trb resb
                 hplb (by omega) hinv3 (disj_paramGam p.w fd.params (2 * p.w) (fok.nodup fd hmem))
                 (by rw [map_fst_paramGam]; exact fok.wf fd hmem) hfit heW hexb
                 (by cases resb <;> simp only [FaultOK] <;>
                       first | trivial | (simp only [Option.some.injEq, Prod.mk.injEq] at hcw; exact hfl _ hcw.2.1.symm))
-                (Or.inl (plain_noTry _ (fok.plain fd hmem)))
+                (Or.inl ⟨(by intro h; cases h), (by intro h; cases h), plain_noTry _ (fok.plain fd hmem)⟩)
               have r03 : Reach (sphinx p) ⟨pc, m⟩ [] ⟨faddr fa fd.name + prologueLen ck, m3⟩ := by
                 have r3 := Reach.of_next (sys := sphinx p) s3
                 have r2' : Reach (sphinx p) ⟨pc + 1, m1⟩ [] ⟨pc + (1 + push.length), m2⟩ := by simpa [Nat.add_assoc] using r2
@@ -346,7 +298,7 @@ theorem cS_ok (lib : Placed p B) (fok : FnsOK p ck B fa fns) :
       simp only [cS] at hpl hB
       have c0 := hpl 0 (by simp); have c1 := hpl 1 (by simp); have c2 := hpl 2 (by simp)
       simp only [List.getElem_cons_succ, List.getElem_cons_zero, Nat.add_zero] at c0 c1 c2
-      rw [show (cxOf p ck B).r1 = 3 * p.w from rfl] at c0 c1
+      rw [show (cxOf p ck B dA).r1 = 3 * p.w from rfl] at c0 c1
       have s0 := step_ldSlot ck B (3 * p.w) p.w hw hinv.fr c0 (Nat.le_refl _) (by omega) (by omega)
       rw [hinv.ra] at s0
       have hsz : 5 * p.w ≤ (m.writeLE (3 * p.w) p.w ra).size := by simp; omega
@@ -355,7 +307,7 @@ theorem cS_ok (lib : Placed p B) (fok : FnsOK p ck B fa fns) :
       rw [Nat.mod_eq_of_lt hra] at s1
       have s2 := step_halt (m := m.writeLE (3 * p.w) p.w ra) c2
       refine ⟨fun h => absurd h (by decide), fun _ => ⟨⟨ra, m.writeLE (3 * p.w) p.w ra⟩, ?_,
-        by simp [Post]; exact Keep.write _ _ _ _ _ _ (by omega) (by omega)⟩⟩
+        by simp [Post]; exact (Keep.write _ _ _ _ _ F (by omega) (by omega)).kb⟩⟩
       have := (Reach.of_next (sys := sphinx p) s0).trans (Reach.jump_taken (sys := sphinx p) s1 s2)
       simpa [evl] using this
     | decl x e k =>
@@ -365,7 +317,7 @@ theorem cS_ok (lib : Placed p B) (fok : FnsOK p ck B fa fns) :
       simp only [cS] at hpl hB hs ⊢
       obtain ⟨hpl1, hpl2⟩ := hpl.append
       rw [List.length_append] at hB hs ⊢
-      have hp := pushE_ok (ck := ck) lib Γ env F D e pc o m hpl1 (by omega) hinv.fr hinv.vars hbe (by omega) ho
+      have hp := pushE_ok (ck := ck) (dA := dA) lib Γ env F D e pc o m hpl1 (by omega) hinv.fr hinv.vars hbe (by omega) ho
       cases hev : evalE (256 ^ p.w) (8 * p.w) env e with
       | none =>
         simp only [exec, hev, Option.some.injEq, Prod.mk.injEq] at hex
@@ -376,8 +328,8 @@ theorem cS_ok (lib : Placed p B) (fok : FnsOK p ck B fa fns) :
         simp only [exec, hev] at hex
         obtain ⟨m1, r1, k1, hval⟩ := hp.1 v hev
         obtain ⟨hinv1, hd1⟩ := decl_inv hinv hd x v k1 hval hxn ho
-        have conv : ∀ (e1 e2 : Nat), e1 = e2 → ∀ st', Post p B ra lp ((x, o + p.w) :: Γ) env' F D (o + p.w) e1 m res st' →
-            Post p B ra lp Γ env' F D o e2 m res st' := by
+        have conv : ∀ (e1 e2 : Nat), e1 = e2 → ∀ st', Post p B ra lp md ((x, o + p.w) :: Γ) env' F D (o + p.w) e1 m res st' →
+            Post p B ra lp md Γ env' F D o e2 m res st' := by
           intro e1 e2 he st' hpost
           subst he
           cases res with
@@ -387,7 +339,10 @@ theorem cS_ok (lib : Placed p B) (fok : FnsOK p ck B fa fns) :
           | returned => simpa [Post] using hpost
           | div0 => simpa [Post] using hpost
           | ovf => simpa [Post] using hpost
-          | defeat => simpa [Post] using hpost
+          | defeat =>
+            simp only [Post] at hpost ⊢
+            obtain ⟨a, v, h1, h2, h3, h4⟩ := hpost
+            exact ⟨a, v, h1, h2, decl_back hinv x h3 hxn, h4⟩
           | retv v => simpa [Post] using hpost
           | brk =>
             simp only [Post] at hpost ⊢
@@ -395,7 +350,7 @@ theorem cS_ok (lib : Placed p B) (fok : FnsOK p ck B fa fns) :
           | cnt =>
             simp only [Post] at hpost ⊢
             exact ⟨hpost.1, decl_back hinv x hpost.2.1 hxn, hpost.2.2⟩
-        have hk := ih F D ra hra lp hlp k ((x, o + p.w) :: Γ) (upd env x v) _ (o + p.w) m1 env' tr res hpl2 (by omega)
+        have hk := ih F D ra hra lp hlp md sb k ((x, o + p.w) :: Γ) (upd env x v) _ (o + p.w) m1 env' tr res hpl2 (by omega)
           hinv1 hd1 (by simpa using hwk) (by omega) (by omega) hex hck
           (hs.sub (by simp [noTry]) (by simp [youLevel]) (k1.mono (by omega)) (conv _ _ (by omega)))
         simpa using Concl.pre r1 (k1.mono (by omega)) hk (conv _ _ (by omega))
@@ -403,15 +358,15 @@ theorem cS_ok (lib : Placed p B) (fok : FnsOK p ck B fa fns) :
       simp only [wfS, Bool.and_eq_true] at hwf
       obtain ⟨⟨hxin, hbe⟩, hwk⟩ := hwf
       simp only [pkS] at hpk
-      have hg := gV_ok (ck := ck) lib Γ env F D e pc o (3 * p.w) m
-      rcases hgv : gV (cxOf p ck B) Γ pc o (cxOf p ck B).r1 e with ⟨c, v'⟩
-      rw [show (cxOf p ck B).r1 = 3 * p.w from rfl] at hgv
+      have hg := gV_ok (ck := ck) (dA := dA) lib Γ env F D e pc o (3 * p.w) m
+      rcases hgv : gV (cxOf p ck B dA) Γ pc o (cxOf p ck B dA).r1 e with ⟨c, v'⟩
+      rw [show (cxOf p ck B dA).r1 = 3 * p.w from rfl] at hgv
       rw [hgv] at hg
       simp only at hg
-      have hcode : cS (cxOf p ck B) fa lp Γ pc o (.assign x e k)
-          = (c ++ [stSlot (cxOf p ck B) (look Γ x) (v'.arg (cxOf p ck B))]) ++
-              cS (cxOf p ck B) fa lp Γ (pc + (c ++ [stSlot (cxOf p ck B) (look Γ x) (v'.arg (cxOf p ck B))]).length) o k := by
-        simp only [cS]; rw [show (cxOf p ck B).r1 = 3 * p.w from rfl, hgv]
+      have hcode : cS (cxOf p ck B dA) fa lp Γ pc o (.assign x e k)
+          = (c ++ [stSlot (cxOf p ck B dA) (look Γ x) (v'.arg (cxOf p ck B dA))]) ++
+              cS (cxOf p ck B dA) fa lp Γ (pc + (c ++ [stSlot (cxOf p ck B dA) (look Γ x) (v'.arg (cxOf p ck B dA))]).length) o k := by
+        simp only [cS]; rw [show (cxOf p ck B dA).r1 = 3 * p.w from rfl, hgv]
       rw [hcode] at hpl hB hs ⊢
       obtain ⟨hpl12, hpl3⟩ := hpl.append
       obtain ⟨hpl1, hpl2⟩ := hpl12.append
@@ -428,9 +383,9 @@ theorem cS_ok (lib : Placed p B) (fok : FnsOK p ck B fa fns) :
         obtain ⟨m1, r1, k1, harg, hval⟩ := hg'.1 v hev
         have hinv1 := hinv.keep k1 ho
         obtain ⟨hx1, hx2, _⟩ := hinv.vars x hxin
-        have ev := ev_arg_any (ck := ck) (B := B) hw hinv1.fr (pc + c.length) v' harg
+        have ev := ev_arg_any (ck := ck) (dA := dA) (B := B) hw hinv1.fr (pc + c.length) v' harg
         rw [hval] at ev
-        have st := st_reach (ck := ck) (B := B) hw hinv1.fr (look Γ x) _ v hpl2 ev (by omega) (by omega)
+        have st := st_reach (ck := ck) (dA := dA) (B := B) hw hinv1.fr (look Γ x) _ v hpl2 ev (by omega) (by omega)
         have hvM : v < 256 ^ p.w := by
           rw [← hval]; cases v' with
           | imm i => exact wrapI_lt (by omega) i
@@ -439,7 +394,7 @@ theorem cS_ok (lib : Placed p B) (fok : FnsOK p ck B fa fns) :
         have hinv2 := assign_inv hw hinv1 hd x v hvM hxin hoD
         have km2 : Keep p.w m (m1.writeLE (F - look Γ x) p.w v) F :=
           (k1.mono (by omega)).trans' (Keep.write _ _ _ _ _ _ (by omega) (by omega))
-        have hk := ih F D ra hra lp hlp k Γ (upd env x v) _ o _ env' tr res hpl3 (by omega)
+        have hk := ih F D ra hra lp hlp md sb k Γ (upd env x v) _ o _ env' tr res hpl3 (by omega)
           hinv2 hd hwk (by omega) ho hex hck (hs.sub (by simp [noTry]) (by simp [youLevel]) km2 (post_conv (by omega)))
         have r01 : Reach (sphinx p) ⟨pc, m⟩ [] ⟨pc + (c.length + 1), m1.writeLE (F - look Γ x) p.w v⟩ := by
           simpa [Nat.add_assoc] using r1.trans st
@@ -451,7 +406,7 @@ theorem cS_ok (lib : Placed p B) (fok : FnsOK p ck B fa fns) :
       simp only [cS] at hpl hB hs ⊢
       obtain ⟨hpl1, hpl2⟩ := hpl.append
       rw [List.length_append] at hB hs ⊢
-      have hwr := cWrite_ok (ck := ck) lib Γ env F D e pc o m hpl1 (by omega) hinv.fr hinv.vars hbe (by omega) ho
+      have hwr := cWrite_ok (ck := ck) (dA := dA) lib Γ env F D e pc o m hpl1 (by omega) hinv.fr hinv.vars hbe (by omega) ho
       cases hev : evalE (256 ^ p.w) (8 * p.w) env e with
       | none =>
         simp only [exec, hev, Option.some.injEq, Prod.mk.injEq] at hex
@@ -467,7 +422,7 @@ theorem cS_ok (lib : Placed p B) (fok : FnsOK p ck B fa fns) :
           simp only [hk, Option.bind_eq_bind, Option.bind_some, Option.pure_def, Option.some.injEq, Prod.mk.injEq] at hex
           obtain ⟨rfl, rfl, rfl⟩ := hex
           obtain ⟨m1, r1, k1⟩ := hwr.1 v hev
-          have hkk := ih F D ra hra lp hlp k Γ env _ o m1 envk trk resk hpl2 (by omega)
+          have hkk := ih F D ra hra lp hlp md sb k Γ env _ o m1 envk trk resk hpl2 (by omega)
             (hinv.keep k1 ho) hd hwk (by omega) ho hk hck (hs.sub (by simp [noTry]) (by simp [youLevel]) (k1.mono (by omega)) (post_conv (by omega)))
           exact Concl.pre r1 (k1.mono (by omega)) hkk (post_conv (by omega))
     | writeln e k =>
@@ -478,7 +433,7 @@ theorem cS_ok (lib : Placed p B) (fok : FnsOK p ck B fa fns) :
         simp only [cS] at hpl hB hs ⊢
         have c0 := hpl 0 (by simp)
         simp only [List.getElem_cons_zero, Nat.add_zero] at c0
-        have hpl2 : PlacedAt p (pc + 1) (cS (cxOf p ck B) fa lp Γ (pc + 1) o k) := by
+        have hpl2 : PlacedAt p (pc + 1) (cS (cxOf p ck B dA) fa lp Γ (pc + 1) o k) := by
           have := (hpl.append (l₁ := [Instr.yld (.imm 10)])).2; simpa using this
         simp only [List.length_cons] at hB hs ⊢
         simp only [exec] at hex
@@ -490,7 +445,7 @@ theorem cS_ok (lib : Placed p B) (fok : FnsOK p ck B fa fns) :
           obtain ⟨rfl, rfl, rfl⟩ := hex
           have y := yld_reach (p := p) pc 10 m c0
           rw [show 10 % p.M % 256 = 10 from by unfold Prog.M; rw [Nat.mod_eq_of_lt (show 10 < 256 ^ p.w by omega)]] at y
-          have hkk := ih F D ra hra lp hlp k Γ env _ o m envk trk resk hpl2 (by omega) hinv hd hwf hpk ho hk hck
+          have hkk := ih F D ra hra lp hlp md sb k Γ env _ o m envk trk resk hpl2 (by omega) hinv hd hwf hpk ho hk hck
             (hs.sub (by simp [noTry]) (by simp [youLevel]) (Keep.refl _ _ _) (post_conv (by omega)))
           simpa using Concl.pre y (Keep.refl _ _ _) hkk (post_conv (by omega))
       | some e =>
@@ -501,7 +456,7 @@ theorem cS_ok (lib : Placed p B) (fok : FnsOK p ck B fa fns) :
         obtain ⟨hpl12, hpl3⟩ := hpl.append
         obtain ⟨hpl1, hpl2⟩ := hpl12.append
         simp only [List.length_append, List.length_cons, List.length_nil, Nat.zero_add] at hB hpl3 hs ⊢
-        have hwr := cWrite_ok (ck := ck) lib Γ env F D e pc o m hpl1 (by omega) hinv.fr hinv.vars hbe (by omega) ho
+        have hwr := cWrite_ok (ck := ck) (dA := dA) lib Γ env F D e pc o m hpl1 (by omega) hinv.fr hinv.vars hbe (by omega) ho
         cases hev : evalE (256 ^ p.w) (8 * p.w) env e with
         | none =>
           simp only [exec, hev, Option.some.injEq, Prod.mk.injEq] at hex
@@ -517,12 +472,12 @@ theorem cS_ok (lib : Placed p B) (fok : FnsOK p ck B fa fns) :
             simp only [hk, Option.bind_eq_bind, Option.bind_some, Option.pure_def, Option.some.injEq, Prod.mk.injEq] at hex
             obtain ⟨rfl, rfl, rfl⟩ := hex
             obtain ⟨m1, r1, k1⟩ := hwr.1 v hev
-            have y := yld_reach (p := p) (pc + (cWrite (cxOf p ck B) Γ pc o e).length) 10 m1 (placed_one hpl2)
+            have y := yld_reach (p := p) (pc + (cWrite (cxOf p ck B dA) Γ pc o e).length) 10 m1 (placed_one hpl2)
             rw [show 10 % p.M % 256 = 10 from by unfold Prog.M; rw [Nat.mod_eq_of_lt (show 10 < 256 ^ p.w by omega)]] at y
-            have hkk := ih F D ra hra lp hlp k Γ env _ o m1 envk trk resk hpl3 (by omega)
+            have hkk := ih F D ra hra lp hlp md sb k Γ env _ o m1 envk trk resk hpl3 (by omega)
               (hinv.keep k1 ho) hd hwk (by omega) ho hk hck (hs.sub (by simp [noTry]) (by simp [youLevel]) (k1.mono (by omega)) (post_conv (by omega)))
             have r01 : Reach (sphinx p) ⟨pc, m⟩ (outs (decimalW (256 ^ p.w) v) ++ [Ev.out 10])
-                ⟨pc + ((cWrite (cxOf p ck B) Γ pc o e).length + 1), m1⟩ := by
+                ⟨pc + ((cWrite (cxOf p ck B dA) Γ pc o e).length + 1), m1⟩ := by
               simpa [Nat.add_assoc] using r1.trans y
             simpa [List.append_assoc] using Concl.pre r01 (k1.mono (by omega)) hkk (post_conv (by omega))
     | putc c k =>
@@ -531,8 +486,8 @@ theorem cS_ok (lib : Placed p B) (fok : FnsOK p ck B fa fns) :
       simp only [cS] at hpl hB hs ⊢
       have c0 := hpl 0 (by simp)
       simp only [List.getElem_cons_zero, Nat.add_zero] at c0
-      have hpl2 : PlacedAt p (pc + 1) (cS (cxOf p ck B) fa lp Γ (pc + 1) o k) := by
-        have := (hpl.append (l₁ := [Instr.yld (.imm (c % (cxOf p ck B).M))])).2; simpa using this
+      have hpl2 : PlacedAt p (pc + 1) (cS (cxOf p ck B dA) fa lp Γ (pc + 1) o k) := by
+        have := (hpl.append (l₁ := [Instr.yld (.imm (c % (cxOf p ck B dA).M))])).2; simpa using this
       simp only [List.length_cons] at hB hs ⊢
       simp only [exec] at hex
       cases hk : exec (256 ^ p.w) (8 * p.w) fns p.w f D o env k with
@@ -542,9 +497,9 @@ theorem cS_ok (lib : Placed p B) (fok : FnsOK p ck B fa fns) :
         simp only [hk, Option.bind_eq_bind, Option.bind_some, Option.pure_def, Option.some.injEq, Prod.mk.injEq] at hex
         obtain ⟨rfl, rfl, rfl⟩ := hex
         have y := yld_reach (p := p) pc _ m c0
-        rw [show c % (cxOf p ck B).M % p.M % 256 = c % 256 ^ p.w % 256 from by
+        rw [show c % (cxOf p ck B dA).M % p.M % 256 = c % 256 ^ p.w % 256 from by
           unfold Prog.M; show c % 256 ^ p.w % 256 ^ p.w % 256 = _; rw [Nat.mod_mod]] at y
-        have hkk := ih F D ra hra lp hlp k Γ env _ o m envk trk resk hpl2 (by omega) hinv hd hwf hpk ho hk hck
+        have hkk := ih F D ra hra lp hlp md sb k Γ env _ o m envk trk resk hpl2 (by omega) hinv hd hwf hpk ho hk hck
           (hs.sub (by simp [noTry]) (by simp [youLevel]) (Keep.refl _ _ _) (post_conv (by omega)))
         simpa using Concl.pre y (Keep.refl _ _ _) hkk (post_conv (by omega))
     | block b k =>
@@ -569,36 +524,36 @@ theorem cS_ok (lib : Placed p B) (fok : FnsOK p ck B fa fns) :
             simp only [hk, Option.bind_some, Option.pure_def, Option.some.injEq, Prod.mk.injEq] at hex
             obtain ⟨rfl, rfl, rfl⟩ := hex
             -- the rest, from any state matching env1 at the end of `b` that is reachable from `m`
-            have contK : ∀ m1, SInv p Γ env1 m1 F D o ra → Keep p.w m m1 F →
-                Concl p B ra lp Γ envk F D o (pc + (cS (cxOf p ck B) fa lp Γ pc o b).length)
-                  (pc + (cS (cxOf p ck B) fa lp Γ pc o b).length +
-                    (cS (cxOf p ck B) fa lp Γ (pc + (cS (cxOf p ck B) fa lp Γ pc o b).length) o k).length) m1 trk resk :=
-              fun m1 hi1 km1 => ih F D ra hra lp hlp k Γ env1 (pc + (cS (cxOf p ck B) fa lp Γ pc o b).length) o m1 envk trk resk hpl2 (by omega)
+            have contK : ∀ m1, SInv p md Γ env1 m1 F D o ra → Keep p.w m m1 (md.kb F p.w) →
+                Concl p B ra lp md Γ envk F D o (pc + (cS (cxOf p ck B dA) fa lp Γ pc o b).length)
+                  (pc + (cS (cxOf p ck B dA) fa lp Γ pc o b).length +
+                    (cS (cxOf p ck B dA) fa lp Γ (pc + (cS (cxOf p ck B dA) fa lp Γ pc o b).length) o k).length) m1 trk resk :=
+              fun m1 hi1 km1 => ih F D ra hra lp hlp md sb k Γ env1 (pc + (cS (cxOf p ck B dA) fa lp Γ pc o b).length) o m1 envk trk resk hpl2 (by omega)
                 hi1 hd hwf.2 (by omega) ho hk hck
-                (hs.sub (k := k) (by simp only [noTry, Bool.and_eq_true]; exact fun h => h.2)
+                (hs.sub' (k := k) (by simp only [noTry, Bool.and_eq_true]; exact fun h => h.2)
                   (by simp only [youLevel, Bool.and_eq_true]; exact fun h => h.2) km1 (post_conv (by omega)))
-            have hsb : Safe p B ra lp Γ env1 F D o (pc + (cS (cxOf p ck B) fa lp Γ pc o b).length) m .norm b := by
-              rcases hs with h | ⟨h1, h2⟩
-              · left; simp only [noTry, Bool.and_eq_true] at h; exact h.1
+            have hsb : Safe p B dA ra lp md sb Γ env1 F D o (pc + (cS (cxOf p ck B dA) fa lp Γ pc o b).length) m .norm b := by
+              rcases hs with ⟨hmd, hvd, h⟩ | ⟨hmd, hvd, h1, hst, h2⟩
+              · left; simp only [noTry, Bool.and_eq_true] at h; exact ⟨hmd, hvd, h.1⟩
               · right
                 simp only [youLevel, Bool.and_eq_true] at h1
-                refine ⟨h1.1, fun st1 hp1 => ?_⟩
+                refine ⟨hmd, hvd, h1.1, hst, fun st1 hp1 => ?_⟩
                 obtain ⟨pc1, m1⟩ := st1
                 simp only [Post] at hp1
                 obtain ⟨hpc1, hi1, km1⟩ := hp1
                 subst hpc1
-                obtain ⟨st', r2, hp2⟩ := (contK m1 hi1 km1).2 (exec_no_defeat _ _ _ _ _ _ _ _ _ _ _ _ h1.2 hk)
+                obtain ⟨st', r2, hp2⟩ := (contK m1 hi1 km1).2 (nd (exec_no_defeat _ _ _ _ _ _ _ _ _ _ _ _ _ h1.2 hk))
                 exact (r2.exec (h2 st' (by refine post_conv ?_ st' (hp2.rebase km1); omega))).2
-            have hbb := ih F D ra hra lp hlp b Γ env pc o m env1 tr1 .norm hpl1 (by omega) hinv hd hwf.1 (by omega) ho hb1 trivial hsb
-            obtain ⟨st1, r1, hp1⟩ := hbb.2 (by decide)
+            have hbb := ih F D ra hra lp hlp md sb b Γ env pc o m env1 tr1 .norm hpl1 (by omega) hinv hd hwf.1 (by omega) ho hb1 trivial hsb
+            obtain ⟨st1, r1, hp1⟩ := hbb.2 (nd (by decide))
             obtain ⟨pc1, m1⟩ := st1
             simp only [Post] at hp1
             obtain ⟨hpc1, hi1, km1⟩ := hp1
             subst hpc1
-            exact Concl.pre r1 km1 (contK m1 hi1 km1) (post_conv (by omega))
+            exact Concl.pre' r1 km1 (contK m1 hi1 km1) (post_conv (by omega))
         · simp only [hn, if_false, Option.pure_def, Option.some.injEq, Prod.mk.injEq] at hex
           obtain ⟨rfl, rfl, rfl⟩ := hex
-          have convb : ∀ (e1 e2 : Nat) st', Post p B ra lp Γ env1 F D o e1 m res1 st' → Post p B ra lp Γ env1 F D o e2 m res1 st' := by
+          have convb : ∀ (e1 e2 : Nat) st', Post p B ra lp md Γ env1 F D o e1 m res1 st' → Post p B ra lp md Γ env1 F D o e2 m res1 st' := by
             intro e1 e2 st' h
             cases res1 with
             | norm => exact absurd rfl hn
@@ -609,25 +564,41 @@ theorem cS_ok (lib : Placed p B) (fok : FnsOK p ck B fa fns) :
             | retv v => simpa [Post] using h
             | brk => simpa [Post] using h
             | cnt => simpa [Post] using h
-          have hbb := ih F D ra hra lp hlp b Γ env pc o m env1 tr1 res1 hpl1 (by omega) hinv hd hwf.1 (by omega) ho hb1 hck
+          have hbb := ih F D ra hra lp hlp md sb b Γ env pc o m env1 tr1 res1 hpl1 (by omega) hinv hd hwf.1 (by omega) ho hb1 hck
             (hs.sub (by simp only [noTry, Bool.and_eq_true]; exact fun h => h.1)
               (by simp only [youLevel, Bool.and_eq_true]; exact fun h => h.1) (Keep.refl _ _ _) (convb _ _))
           exact ⟨hbb.1, fun hnd => by obtain ⟨st1, r1, hp1⟩ := hbb.2 hnd; exact ⟨st1, r1, convb _ _ st1 hp1⟩⟩
     | defeat k =>
       simp only [exec, Option.some.injEq, Prod.mk.injEq] at hex
       obtain ⟨rfl, rfl, rfl⟩ := hex
-      simp only [cS] at hpl
-      have c0 := hpl 0 (by simp)
-      simp only [List.getElem_cons_zero, Nat.add_zero] at c0
-      exact ⟨fun _ => Halts.halt (sys := sphinx p) (step_halt (m := m) c0), fun h => absurd rfl h⟩
+      cases hv : lp.vd with
+      | false =>
+        simp only [cS, hv] at hpl
+        have c0 := hpl 0 (by simp)
+        simp only [Bool.false_eq_true, if_false, List.getElem_cons_zero, Nat.add_zero] at c0
+        exact ⟨fun _ _ => Halts.halt (sys := sphinx p) (step_halt (m := m) c0), fun h => absurd (hv.symm.trans (h rfl)) (by decide)⟩
+      | true =>
+        -- inside a `try/stop` body: `j [defeat]; halt` goes to the handler
+        rcases hs with ⟨_, hvd, _⟩ | ⟨_, hvd, _⟩
+        · obtain ⟨v, rfl⟩ := hvd hv
+          obtain ⟨h1, h2, h3, h4, _, h6⟩ := hinv.dreg dA v rfl
+          simp only [cS, hv] at hpl
+          have c0 := hpl 0 (by simp); have c1 := hpl 1 (by simp)
+          simp only [if_true, List.cons_append, List.nil_append, List.getElem_cons_succ, List.getElem_cons_zero, Nat.add_zero] at c0 c1
+          have s0 := step_j (m := m) c0 (ev_st (by unfold Prog.M; omega) (by omega))
+          rw [h4] at s0
+          have s1 := step_halt (m := m) c1
+          exact ⟨fun _ hf => absurd (hv.symm.trans hf) (by decide), fun _ => ⟨⟨v, m⟩, Reach.jump_taken (sys := sphinx p) s0 s1,
+            ⟨dA, v, rfl, rfl, hinv, Keep.refl _ _ _⟩⟩⟩
+        · rw [hvd] at hv; cases hv
     | defeatIf c k =>
-      simp only [wfS, Bool.and_eq_true] at hwf
-      obtain ⟨⟨hbc, hdc⟩, hwk⟩ := hwf
+      simp only [wfS, Bool.and_eq_true, Bool.not_eq_true'] at hwf
+      obtain ⟨⟨⟨hbc, hdc⟩, hwk⟩, hvF⟩ := hwf
       simp only [pkS] at hpk
       simp only [cS] at hpl hB hs ⊢
       obtain ⟨hpl1, hpl2⟩ := hpl.append
       rw [List.length_append] at hB hs ⊢
-      have hcd := cD_ok (ck := ck) lib Γ env F D c pc o m hdc hpl1 (by omega) hinv.fr hinv.vars hbc (by omega) ho
+      have hcd := cD_ok (ck := ck) (dA := dA) lib Γ env F D c pc o m hdc hpl1 (by omega) hinv.fr hinv.vars hbc (by omega) ho
       cases hev : evalB (256 ^ p.w) (8 * p.w) env c with
       | none =>
         simp only [exec, hev, Option.some.injEq, Prod.mk.injEq] at hex
@@ -639,11 +610,11 @@ theorem cS_ok (lib : Placed p B) (fok : FnsOK p ck B fa fns) :
         | true =>
           simp only [exec, hev, Option.some.injEq, Prod.mk.injEq] at hex
           obtain ⟨rfl, rfl, rfl⟩ := hex
-          exact ⟨fun _ => hcd.2.1 hev, fun h => absurd rfl h⟩
+          exact ⟨fun _ _ => hcd.2.1 hev, fun h => absurd (h rfl) (by rw [hvF]; simp)⟩
         | false =>
           simp only [exec, hev] at hex
           obtain ⟨m1, r1, k1⟩ := hcd.1 hev
-          have hkk := ih F D ra hra lp hlp k Γ env _ o m1 env' tr res hpl2 (by omega) (hinv.keep k1 ho) hd hwk (by omega) ho hex hck
+          have hkk := ih F D ra hra lp hlp md sb k Γ env _ o m1 env' tr res hpl2 (by omega) (hinv.keep k1 ho) hd hwk (by omega) ho hex hck
             (hs.sub (by simp [noTry]) (by simp [youLevel]) (k1.mono (by omega)) (post_conv (by omega)))
           simpa using Concl.pre r1 (k1.mono (by omega)) hkk (post_conv (by omega))
     | ifb c t e k =>
@@ -651,22 +622,22 @@ theorem cS_ok (lib : Placed p B) (fok : FnsOK p ck B fa fns) :
       obtain ⟨⟨⟨hbc, hwt⟩, hwe⟩, hwk⟩ := hwf
       simp only [pkS] at hpk
       simp only [cS] at hpl hB hs ⊢
-      have hlenA : (cB (cxOf p ck B) Γ pc o c [] (goto (pc + lenB ck c 0 2 false true + lenS ck t + 2))).length
+      have hlenA : (cB (cxOf p ck B dA) Γ pc o c [] (goto (pc + lenB ck c 0 2 false true + lenS ck lp.vd t + 2))).length
           = lenB ck c 0 2 false true := by rw [cB_len]; simp
       generalize hnC : lenB ck c 0 2 false true = nC at *
-      have hlenT : (cS (cxOf p ck B) fa lp Γ (pc + nC) o t).length = lenS ck t := cS_len _ _ _ _ _ _ _
-      have hlenE : (cS (cxOf p ck B) fa lp Γ (pc + nC + lenS ck t + 2) o e).length = lenS ck e := cS_len _ _ _ _ _ _ _
-      generalize hnT : lenS ck t = nT at *
-      generalize hnE : lenS ck e = nE at *
+      have hlenT : (cS (cxOf p ck B dA) fa lp Γ (pc + nC) o t).length = lenS ck lp.vd t := cS_len _ _ _ _ _ _ _
+      have hlenE : (cS (cxOf p ck B dA) fa lp Γ (pc + nC + lenS ck lp.vd t + 2) o e).length = lenS ck lp.vd e := cS_len _ _ _ _ _ _ _
+      generalize hnT : lenS ck lp.vd t = nT at *
+      generalize hnE : lenS ck lp.vd e = nE at *
       obtain ⟨hpl1234, hplK⟩ := hpl.append
       obtain ⟨hpl123, hplE⟩ := hpl1234.append
       obtain ⟨hpl12, hplG⟩ := hpl123.append
       obtain ⟨hplA, hplT⟩ := hpl12.append
       simp only [List.length_append, hlenA, hlenT, hlenE, goto_len, ← Nat.add_assoc] at hB hplK hplE hplG hplT hs ⊢
       have hendM : pc + nC + nT + 2 + nE < 256 ^ p.w := by simp [stdlibLength] at hBM; omega
-      have hc := cB_ok (ck := ck) lib Γ env F D c pc o none (some (pc + nC + nT + 2)) m hplA (by rw [brCode, brCode, hlenA]; omega)
+      have hc := cB_ok (ck := ck) (dA := dA) lib Γ env F D c pc o none (some (pc + nC + nT + 2)) m hplA (by rw [brCode, brCode, hlenA]; omega)
         (fun x hx => by simp at hx) (fun x hx => by simp at hx; omega) hinv.fr hinv.vars hbc (by omega) ho
-      rw [show (cB (cxOf p ck B) Γ pc o c (brCode none) (brCode (some (pc + nC + nT + 2)))).length = nC from hlenA] at hc
+      rw [show (cB (cxOf p ck B dA) Γ pc o c (brCode none) (brCode (some (pc + nC + nT + 2)))).length = nC from hlenA] at hc
       cases hev : evalB (256 ^ p.w) (8 * p.w) env c with
       | none =>
         simp only [exec, hev, Option.some.injEq, Prod.mk.injEq] at hex
@@ -679,7 +650,7 @@ theorem cS_ok (lib : Placed p B) (fok : FnsOK p ck B fa fns) :
         have hinv0 := hinv.keep k0 ho
         have km0 : Keep p.w m m0 F := k0.mono (by omega)
         have convN : ∀ (envx : Env) (resx : Res), resx ≠ .norm → ∀ (e1 e2 : Nat) st',
-            Post p B ra lp Γ envx F D o e1 m resx st' → Post p B ra lp Γ envx F D o e2 m resx st' := by
+            Post p B ra lp md Γ envx F D o e1 m resx st' → Post p B ra lp md Γ envx F D o e2 m resx st' := by
           intro envx resx hx e1 e2 st' h
           cases resx with
           | norm => exact absurd rfl hx
@@ -691,9 +662,9 @@ theorem cS_ok (lib : Placed p B) (fok : FnsOK p ck B fa fns) :
           | brk => simpa [Post] using h
           | cnt => simpa [Post] using h
         -- the branch taken, its code address and the address where it ends
-        have hbranch : ∀ (X : S) (pcX nX : Nat), (cS (cxOf p ck B) fa lp Γ pcX o X).length = nX →
-            PlacedAt p pcX (cS (cxOf p ck B) fa lp Γ pcX o X) → pcX + nX ≤ B → wfS (Γ.map Prod.fst) X = true → pkS p.w o X ≤ D →
-            (noTry (.ifb c t e k) = true → noTry X = true) → (youLevel (.ifb c t e k) = true → youLevel X = true) →
+        have hbranch : ∀ (X : S) (pcX nX : Nat), (cS (cxOf p ck B dA) fa lp Γ pcX o X).length = nX →
+            PlacedAt p pcX (cS (cxOf p ck B dA) fa lp Γ pcX o X) → pcX + nX ≤ B → wfS lp.vd (Γ.map Prod.fst) X = true → pkS p.w o X ≤ D →
+            (noTry (.ifb c t e k) = true → noTry X = true) → (youLevel sb (.ifb c t e k) = true → youLevel sb X = true) →
             Reach (sphinx p) ⟨pc, m⟩ [] ⟨pcX, m0⟩ →
             (∀ m1, Reach (sphinx p) ⟨pcX + nX, m1⟩ [] ⟨pc + nC + nT + 2 + nE, m1⟩) →
             ∀ (env1 : Env) (tr1 : List Ev) (res1 : Res),
@@ -703,7 +674,7 @@ theorem cS_ok (lib : Placed p B) (fok : FnsOK p ck B fa fns) :
                     let (env2, tr2, r2) ← exec (256 ^ p.w) (8 * p.w) fns p.w f D o env1 k
                     pure (env2, tr1 ++ tr2, r2)
                   else pure (env1, tr1, r1)) = some (env', tr, res) →
-              Concl p B ra lp Γ env' F D o pc (pc + nC + nT + 2 + nE + (cS (cxOf p ck B) fa lp Γ (pc + nC + nT + 2 + nE) o k).length) m tr res := by
+              Concl p B ra lp md Γ env' F D o pc (pc + nC + nT + 2 + nE + (cS (cxOf p ck B dA) fa lp Γ (pc + nC + nT + 2 + nE) o k).length) m tr res := by
           intro X pcX nX hlenX hplX hBX hwX hpkX hntX hylX rX gX env1 tr1 res1 hb1 hex
           simp only [Option.bind_eq_bind, Option.bind_some] at hex
           by_cases hn : res1 = .norm
@@ -715,43 +686,43 @@ theorem cS_ok (lib : Placed p B) (fok : FnsOK p ck B fa fns) :
               obtain ⟨envk, trk, resk⟩ := rk
               simp only [hk, Option.bind_some, Option.pure_def, Option.some.injEq, Prod.mk.injEq] at hex
               obtain ⟨rfl, rfl, rfl⟩ := hex
-              have contK : ∀ m1, SInv p Γ env1 m1 F D o ra → Keep p.w m m1 F →
-                  Concl p B ra lp Γ envk F D o (pc + nC + nT + 2 + nE)
-                    (pc + nC + nT + 2 + nE + (cS (cxOf p ck B) fa lp Γ (pc + nC + nT + 2 + nE) o k).length) m1 trk resk :=
-                fun m1 hi1 km1 => ih F D ra hra lp hlp k Γ env1 _ o m1 envk trk resk hplK (by omega) hi1 hd hwk (by omega) ho hk hck
-                  (hs.sub (k := k) (by simp only [noTry, Bool.and_eq_true]; exact fun h => h.2)
+              have contK : ∀ m1, SInv p md Γ env1 m1 F D o ra → Keep p.w m m1 (md.kb F p.w) →
+                  Concl p B ra lp md Γ envk F D o (pc + nC + nT + 2 + nE)
+                    (pc + nC + nT + 2 + nE + (cS (cxOf p ck B dA) fa lp Γ (pc + nC + nT + 2 + nE) o k).length) m1 trk resk :=
+                fun m1 hi1 km1 => ih F D ra hra lp hlp md sb k Γ env1 _ o m1 envk trk resk hplK (by omega) hi1 hd hwk (by omega) ho hk hck
+                  (hs.sub' (k := k) (by simp only [noTry, Bool.and_eq_true]; exact fun h => h.2)
                     (by simp only [youLevel, Bool.and_eq_true]; exact fun h => h.2) km1 (post_conv rfl))
-              have hsX : Safe p B ra lp Γ env1 F D o (pcX + nX) m0 .norm X := by
-                rcases hs with h | ⟨h1, h2⟩
-                · left; exact hntX (by simpa [cS] using h)
+              have hsX : Safe p B dA ra lp md sb Γ env1 F D o (pcX + nX) m0 .norm X := by
+                rcases hs with ⟨hmd, hvd, h⟩ | ⟨hmd, hvd, h1, hst, h2⟩
+                · left; exact ⟨hmd, hvd, hntX (by simpa [cS] using h)⟩
                 · right
-                  have h1y : youLevel (.ifb c t e k) = true := h1
+                  have h1y : youLevel sb (.ifb c t e k) = true := h1
                   simp only [youLevel, Bool.and_eq_true] at h1
-                  refine ⟨hylX h1y, fun st1 hp1 => ?_⟩
+                  refine ⟨hmd, hvd, hylX h1y, fun e => by rw [km0.size]; exact hst e, fun st1 hp1 => ?_⟩
                   obtain ⟨pc1, m1⟩ := st1
                   simp only [Post] at hp1
                   obtain ⟨hpc1, hi1, km1⟩ := hp1
                   subst hpc1
-                  have km := km0.trans' km1
-                  obtain ⟨st', r2, hp2⟩ := (contK m1 hi1 km).2 (exec_no_defeat _ _ _ _ _ _ _ _ _ _ _ _ h1.2 hk)
+                  have km := km0.kb.trans' km1
+                  obtain ⟨st', r2, hp2⟩ := (contK m1 hi1 km).2 (nd (exec_no_defeat _ _ _ _ _ _ _ _ _ _ _ _ _ h1.2 hk))
                   exact (((gX m1).trans r2).exec (h2 st' (hp2.rebase km))).2
-              have hxx := ih F D ra hra lp hlp X Γ env pcX o m0 env1 tr1 .norm hplX (by rw [hlenX]; omega) hinv0 hd hwX hpkX ho hb1 trivial
+              have hxx := ih F D ra hra lp hlp md sb X Γ env pcX o m0 env1 tr1 .norm hplX (by rw [hlenX]; omega) hinv0 hd hwX hpkX ho hb1 trivial
                 (by rw [hlenX]; exact hsX)
               rw [hlenX] at hxx
-              obtain ⟨st1, r1, hp1⟩ := hxx.2 (by decide)
+              obtain ⟨st1, r1, hp1⟩ := hxx.2 (nd (by decide))
               obtain ⟨pc1, m1⟩ := st1
               simp only [Post] at hp1
               obtain ⟨hpc1, hi1, km1⟩ := hp1
               subst hpc1
-              have km := km0.trans' km1
+              have km := km0.kb.trans' km1
               have r01 : Reach (sphinx p) ⟨pc, m⟩ tr1 ⟨pc + nC + nT + 2 + nE, m1⟩ := by
                 simpa using rX.trans (r1.trans (gX m1))
-              exact Concl.pre r01 km (contK m1 hi1 km) (post_conv rfl)
+              exact Concl.pre' r01 km (contK m1 hi1 km) (post_conv rfl)
           · simp only [hn, if_false, Option.pure_def, Option.some.injEq, Prod.mk.injEq] at hex
             obtain ⟨rfl, rfl, rfl⟩ := hex
-            have hsX : Safe p B ra lp Γ env1 F D o (pcX + nX) m0 res1 X :=
+            have hsX : Safe p B dA ra lp md sb Γ env1 F D o (pcX + nX) m0 res1 X :=
               hs.sub (by intro h; exact hntX (by simpa [cS] using h)) (by intro h; exact hylX h) km0 (convN env1 res1 hn _ _)
-            have hxx := ih F D ra hra lp hlp X Γ env pcX o m0 env1 tr1 res1 hplX (by rw [hlenX]; omega) hinv0 hd hwX hpkX ho hb1 hck
+            have hxx := ih F D ra hra lp hlp md sb X Γ env pcX o m0 env1 tr1 res1 hplX (by rw [hlenX]; omega) hinv0 hd hwX hpkX ho hb1 hck
               (by rw [hlenX]; exact hsX)
             rw [hlenX] at hxx
             simpa using Concl.pre rX km0 hxx (convN env1 res1 hn _ _)
@@ -790,26 +761,26 @@ theorem cS_ok (lib : Placed p B) (fok : FnsOK p ck B fa fns) :
       obtain ⟨⟨⟨hbc, hwb⟩, hwc⟩, hwk⟩ := hwf
       simp only [pkS] at hpk
       simp only [cS] at hpl hB hs ⊢
-      have hlenA : (cB (cxOf p ck B) Γ pc o c [] (goto (pc + lenB ck c 0 2 false true + lenS ck body + lenS ck cont + 2))).length
+      have hlenA : (cB (cxOf p ck B dA) Γ pc o c [] (goto (pc + lenB ck c 0 2 false true + lenS ck lp.vd body + lenS ck lp.vd cont + 2))).length
           = lenB ck c 0 2 false true := by rw [cB_len]; simp
       generalize hnC : lenB ck c 0 2 false true = nC at *
-      have hlenT : ∀ lp', (cS (cxOf p ck B) fa lp' Γ (pc + nC) o body).length = lenS ck body := fun _ => cS_len _ _ _ _ _ _ _
-      have hlenE : (cS (cxOf p ck B) fa lp Γ (pc + nC + lenS ck body) o cont).length = lenS ck cont := cS_len _ _ _ _ _ _ _
-      generalize hnT : lenS ck body = nT at *
-      generalize hnE : lenS ck cont = nE at *
+      have hlenT : ∀ a b, (cS (cxOf p ck B dA) fa ⟨a, b, lp.vd⟩ Γ (pc + nC) o body).length = lenS ck lp.vd body := fun _ _ => cS_len _ _ _ _ _ _ _
+      have hlenE : (cS (cxOf p ck B dA) fa lp Γ (pc + nC + lenS ck lp.vd body) o cont).length = lenS ck lp.vd cont := cS_len _ _ _ _ _ _ _
+      generalize hnT : lenS ck lp.vd body = nT at *
+      generalize hnE : lenS ck lp.vd cont = nE at *
       obtain ⟨hpl1234, hplK⟩ := hpl.append
       obtain ⟨hpl123, hplG⟩ := hpl1234.append
       obtain ⟨hpl12, hplE⟩ := hpl123.append
       obtain ⟨hplA, hplT⟩ := hpl12.append
       simp only [List.length_append, hlenA, hlenT, hlenE, goto_len, ← Nat.add_assoc] at hB hplK hplE hplG hplT hs ⊢
       have hendM : pc + nC + nT + nE + 2 < 256 ^ p.w := by simp [stdlibLength] at hBM; omega
-      have etot : pc + (cS (cxOf p ck B) fa lp Γ pc o (.loop c body cont k)).length
-          = pc + nC + nT + nE + 2 + (cS (cxOf p ck B) fa lp Γ (pc + nC + nT + nE + 2) o k).length := by
+      have etot : pc + (cS (cxOf p ck B dA) fa lp Γ pc o (.loop c body cont k)).length
+          = pc + nC + nT + nE + 2 + (cS (cxOf p ck B dA) fa lp Γ (pc + nC + nT + nE + 2) o k).length := by
         simp only [cS, hnC, hnT, hnE, List.length_append, hlenA, hlenT, hlenE, goto_len]; omega
       rw [etot] at hs0
-      have hc := cB_ok (ck := ck) lib Γ env F D c pc o none (some (pc + nC + nT + nE + 2)) m hplA (by rw [brCode, brCode, hlenA]; omega)
+      have hc := cB_ok (ck := ck) (dA := dA) lib Γ env F D c pc o none (some (pc + nC + nT + nE + 2)) m hplA (by rw [brCode, brCode, hlenA]; omega)
         (fun x hx => by simp at hx) (fun x hx => by simp at hx; omega) hinv.fr hinv.vars hbc (by omega) ho
-      rw [show (cB (cxOf p ck B) Γ pc o c (brCode none) (brCode (some (pc + nC + nT + nE + 2)))).length = nC from hlenA] at hc
+      rw [show (cB (cxOf p ck B dA) Γ pc o c (brCode none) (brCode (some (pc + nC + nT + nE + 2)))).length = nC from hlenA] at hc
       cases hev : evalB (256 ^ p.w) (8 * p.w) env c with
       | none =>
         simp only [exec, hev, Option.some.injEq, Prod.mk.injEq] at hex
@@ -824,15 +795,14 @@ theorem cS_ok (lib : Placed p B) (fok : FnsOK p ck B fa fns) :
         | false =>
           simp only [exec, hev] at hex
           simp only [Bool.false_eq_true, if_false, Option.getD_some] at r0
-          have hkk := ih F D ra hra lp hlp k Γ env (pc + nC + nT + nE + 2) o m0 env' tr res hplK (by omega) hinv0 hd hwk (by omega) ho hex hck
+          have hkk := ih F D ra hra lp hlp md sb k Γ env (pc + nC + nT + nE + 2) o m0 env' tr res hplK (by omega) hinv0 hd hwk (by omega) ho hex hck
             (hs.sub (by simp only [noTry, Bool.and_eq_true]; exact fun h => h.2)
               (by simp only [youLevel, Bool.and_eq_true]; exact fun h => h.2) km0 (post_conv rfl))
           simpa using Concl.pre r0 km0 hkk (post_conv rfl)
         | true =>
           simp only [exec, hev] at hex
           simp only [if_true, Option.getD_none] at r0
-          have hlpB : ((pc + nC + nT, pc + nC + nT + nE + 2) : Nat × Nat).1 < 256 ^ p.w ∧
-              ((pc + nC + nT, pc + nC + nT + nE + 2) : Nat × Nat).2 < 256 ^ p.w := ⟨by show pc + nC + nT < _; omega, hendM⟩
+          have hlpB : pc + nC + nT < 256 ^ p.w ∧ pc + nC + nT + nE + 2 < 256 ^ p.w := ⟨by omega, hendM⟩
           cases hb1 : exec (256 ^ p.w) (8 * p.w) fns p.w f D o env body with
           | none => simp [hb1] at hex
           | some rb =>
@@ -840,7 +810,7 @@ theorem cS_ok (lib : Placed p B) (fok : FnsOK p ck B fa fns) :
             simp only [hb1, Option.bind_eq_bind, Option.bind_some] at hex
             -- non-normal exits of the `continue` part are exits of the whole loop
             have convN : ∀ (envx : Env) (resx : Res), resx ≠ .norm → ∀ (e1 e2 : Nat) st',
-                Post p B ra lp Γ envx F D o e1 m resx st' → Post p B ra lp Γ envx F D o e2 m resx st' := by
+                Post p B ra lp md Γ envx F D o e1 m resx st' → Post p B ra lp md Γ envx F D o e2 m resx st' := by
               intro envx resx hx e1 e2 st' h
               cases resx with
               | norm => exact absurd rfl hx
@@ -853,7 +823,7 @@ theorem cS_ok (lib : Placed p B) (fok : FnsOK p ck B fa fns) :
               | cnt => simpa [Post] using h
             -- exits of the body other than normal completion, `continue` and `break` are exits of the whole loop
             have convB : ∀ (envx : Env) (resx : Res), resx ≠ .norm → resx ≠ .cnt → resx ≠ .brk → ∀ (e1 e2 : Nat) (mx : Mem) st',
-                Post p B ra (pc + nC + nT, pc + nC + nT + nE + 2) Γ envx F D o e1 mx resx st' → Post p B ra lp Γ envx F D o e2 mx resx st' := by
+                Post p B ra ⟨pc + nC + nT, pc + nC + nT + nE + 2, lp.vd⟩ md Γ envx F D o e1 mx resx st' → Post p B ra lp md Γ envx F D o e2 mx resx st' := by
               intro envx resx hx hx2 hx3 e1 e2 mx st' h
               cases resx with
               | norm => exact absurd rfl hx
@@ -869,8 +839,8 @@ theorem cS_ok (lib : Placed p B) (fok : FnsOK p ck B fa fns) :
               have hfo1 : FaultOK ck fns p.w res1 := by rcases hn1 with h | h <;> rw [h] <;> trivial
               have hnd1 : res1 ≠ .defeat := by rcases hn1 with h | h <;> rw [h] <;> decide
               -- at the end of the body, or at a `continue`: the `continue` label
-              have postNC : ∀ (mx : Mem) st, Post p B ra (pc + nC + nT, pc + nC + nT + nE + 2) Γ env1 F D o (pc + nC + nT) mx res1 st →
-                  st.pc = pc + nC + nT ∧ SInv p Γ env1 st.mem F D o ra ∧ Keep p.w mx st.mem F := by
+              have postNC : ∀ (mx : Mem) st, Post p B ra ⟨pc + nC + nT, pc + nC + nT + nE + 2, lp.vd⟩ md Γ env1 F D o (pc + nC + nT) mx res1 st →
+                  st.pc = pc + nC + nT ∧ SInv p md Γ env1 st.mem F D o ra ∧ Keep p.w mx st.mem (md.kb F p.w) := by
                 intro mx st h
                 rcases hn1 with h1 | h1 <;> subst h1 <;> simpa [Post] using h
               cases hb2 : exec (256 ^ p.w) (8 * p.w) fns p.w f D o env1 cont with
@@ -888,65 +858,65 @@ theorem cS_ok (lib : Placed p B) (fok : FnsOK p ck B fa fns) :
                     simp only [hb3, Option.bind_some, Option.pure_def, Option.some.injEq, Prod.mk.injEq] at hex
                     obtain ⟨rfl, rfl, rfl⟩ := hex
                     -- the next round, from any state matching env2 that is reachable from m
-                    have L : ∀ m2, SInv p Γ env2 m2 F D o ra → Keep p.w m m2 F →
-                        Concl p B ra lp Γ env3 F D o pc (pc + nC + nT + nE + 2 + (cS (cxOf p ck B) fa lp Γ (pc + nC + nT + nE + 2) o k).length) m2 tr3 res3 := by
+                    have L : ∀ m2, SInv p md Γ env2 m2 F D o ra → Keep p.w m m2 (md.kb F p.w) →
+                        Concl p B ra lp md Γ env3 F D o pc (pc + nC + nT + nE + 2 + (cS (cxOf p ck B dA) fa lp Γ (pc + nC + nT + nE + 2) o k).length) m2 tr3 res3 := by
                       intro m2 hi2 km2
-                      have := ih F D ra hra lp hlp (.loop c body cont k) Γ env2 pc o m2 env3 tr3 res3 hpl0 hB0 hi2 hd hwf0 hpk0 ho hb3 hck
-                        (by rw [etot]; exact hs0.sub (fun h => h) (fun h => h) km2 (post_conv rfl))
+                      have := ih F D ra hra lp hlp md sb (.loop c body cont k) Γ env2 pc o m2 env3 tr3 res3 hpl0 hB0 hi2 hd hwf0 hpk0 ho hb3 hck
+                        (by rw [etot]; exact hs0.sub' (fun h => h) (fun h => h) km2 (post_conv rfl))
                       rw [etot] at this; exact this
-                    have hsc : ∀ m1, Keep p.w m m1 F → Safe p B ra lp Γ env2 F D o (pc + nC + nT + nE) m1 .norm cont := by
+                    have hsc : ∀ m1, Keep p.w m m1 (md.kb F p.w) → Safe p B dA ra lp md sb Γ env2 F D o (pc + nC + nT + nE) m1 .norm cont := by
                       intro m1 km1
-                      rcases hs0 with h | ⟨h1, h2⟩
-                      · left; simp only [noTry, Bool.and_eq_true] at h; exact h.1.2
+                      rcases hs0 with ⟨hmd, hvd, h⟩ | ⟨hmd, hvd, h1, hst, h2⟩
+                      · left; simp only [noTry, Bool.and_eq_true] at h; exact ⟨hmd, hvd, h.1.2⟩
                       · right
                         have h1' := h1
                         simp only [youLevel, Bool.and_eq_true] at h1
-                        refine ⟨h1.1.2, fun st2 hp2 => ?_⟩
+                        refine ⟨hmd, hvd, h1.1.2, fun e => by rw [km1.size]; exact hst e, fun st2 hp2 => ?_⟩
                         obtain ⟨pc2, m2⟩ := st2
                         simp only [Post] at hp2
                         obtain ⟨hpc2, hi2, k12⟩ := hp2
                         subst hpc2
                         have km2 := km1.trans' k12
                         have g := goto_reach lib (pc + nC + nT + nE) pc m2 hplG (by omega)
-                        obtain ⟨st', r3, hp3⟩ := (L m2 hi2 km2).2 (exec_no_defeat _ _ _ _ _ _ _ _ _ _ _ _ h1' hb3)
+                        obtain ⟨st', r3, hp3⟩ := (L m2 hi2 km2).2 (nd (exec_no_defeat _ _ _ _ _ _ _ _ _ _ _ _ _ h1' hb3))
                         exact ((g.trans r3).exec (h2 st' (hp3.rebase km2))).2
-                    have hsbd : Safe p B ra (pc + nC + nT, pc + nC + nT + nE + 2) Γ env1 F D o (pc + nC + nT) m0 res1 body := by
-                      rcases hs0 with h | ⟨h1, h2⟩
-                      · left; simp only [noTry, Bool.and_eq_true] at h; exact h.1.1
+                    have hsbd : Safe p B dA ra ⟨pc + nC + nT, pc + nC + nT + nE + 2, lp.vd⟩ md sb Γ env1 F D o (pc + nC + nT) m0 res1 body := by
+                      rcases hs0 with ⟨hmd, hvd, h⟩ | ⟨hmd, hvd, h1, hst, h2⟩
+                      · left; simp only [noTry, Bool.and_eq_true] at h; exact ⟨hmd, hvd, h.1.1⟩
                       · right
                         have h1' := h1
                         simp only [youLevel, Bool.and_eq_true] at h1
-                        refine ⟨h1.1.1, fun st1 hp1 => ?_⟩
+                        refine ⟨hmd, hvd, h1.1.1, fun e => by rw [km0.size]; exact hst e, fun st1 hp1 => ?_⟩
                         obtain ⟨pc1, m1⟩ := st1
                         obtain ⟨hpc1, hi1, k01⟩ := postNC m0 _ hp1
                         dsimp only at hpc1 hi1 k01
                         subst hpc1
-                        have km1 := km0.trans' k01
-                        have hcc := ih F D ra hra lp hlp cont Γ env1 (pc + nC + nT) o m1 env2 tr2 .norm hplE (by rw [hlenE]; omega) hi1 hd hwc (by omega) ho hb2 trivial
+                        have km1 := km0.kb.trans' k01
+                        have hcc := ih F D ra hra lp hlp md sb cont Γ env1 (pc + nC + nT) o m1 env2 tr2 .norm hplE (by rw [hlenE]; omega) hi1 hd hwc (by omega) ho hb2 trivial
                           (by rw [hlenE]; exact hsc m1 km1)
                         rw [hlenE] at hcc
-                        obtain ⟨st2, r2, hp2⟩ := hcc.2 (by decide)
+                        obtain ⟨st2, r2, hp2⟩ := hcc.2 (nd (by decide))
                         obtain ⟨pc2, m2⟩ := st2
                         simp only [Post] at hp2
                         obtain ⟨hpc2, hi2, k12⟩ := hp2
                         subst hpc2
                         have km2 := km1.trans' k12
                         have g := goto_reach lib (pc + nC + nT + nE) pc m2 hplG (by omega)
-                        obtain ⟨st', r3, hp3⟩ := (L m2 hi2 km2).2 (exec_no_defeat _ _ _ _ _ _ _ _ _ _ _ _ h1' hb3)
+                        obtain ⟨st', r3, hp3⟩ := (L m2 hi2 km2).2 (nd (exec_no_defeat _ _ _ _ _ _ _ _ _ _ _ _ _ h1' hb3))
                         exact ((r2.trans (g.trans r3)).exec (h2 st' (hp3.rebase km2))).2
-                    have hbb := ih F D ra hra (pc + nC + nT, pc + nC + nT + nE + 2) hlpB body Γ env (pc + nC) o m0 env1 tr1 res1 hplT (by rw [hlenT]; omega) hinv0 hd hwb (by omega) ho hb1 hfo1
+                    have hbb := ih F D ra hra ⟨pc + nC + nT, pc + nC + nT + nE + 2, lp.vd⟩ hlpB md sb body Γ env (pc + nC) o m0 env1 tr1 res1 hplT (by rw [hlenT]; omega) hinv0 hd hwb (by omega) ho hb1 hfo1
                       (by rw [hlenT]; exact hsbd)
                     rw [hlenT] at hbb
-                    obtain ⟨st1, r1, hp1⟩ := hbb.2 hnd1
+                    obtain ⟨st1, r1, hp1⟩ := hbb.2 (nd hnd1)
                     obtain ⟨pc1, m1⟩ := st1
                     obtain ⟨hpc1, hi1, k01⟩ := postNC m0 _ hp1
                     dsimp only at hpc1 hi1 k01
                     subst hpc1
-                    have km1 := km0.trans' k01
-                    have hcc := ih F D ra hra lp hlp cont Γ env1 (pc + nC + nT) o m1 env2 tr2 .norm hplE (by rw [hlenE]; omega) hi1 hd hwc (by omega) ho hb2 trivial
+                    have km1 := km0.kb.trans' k01
+                    have hcc := ih F D ra hra lp hlp md sb cont Γ env1 (pc + nC + nT) o m1 env2 tr2 .norm hplE (by rw [hlenE]; omega) hi1 hd hwc (by omega) ho hb2 trivial
                       (by rw [hlenE]; exact hsc m1 km1)
                     rw [hlenE] at hcc
-                    obtain ⟨st2, r2, hp2⟩ := hcc.2 (by decide)
+                    obtain ⟨st2, r2, hp2⟩ := hcc.2 (nd (by decide))
                     obtain ⟨pc2, m2⟩ := st2
                     simp only [Post] at hp2
                     obtain ⟨hpc2, hi2, k12⟩ := hp2
@@ -955,42 +925,42 @@ theorem cS_ok (lib : Placed p B) (fok : FnsOK p ck B fa fns) :
                     have g := goto_reach lib (pc + nC + nT + nE) pc m2 hplG (by omega)
                     have r02 : Reach (sphinx p) ⟨pc, m⟩ (tr1 ++ tr2) ⟨pc, m2⟩ := by
                       simpa using r0.trans (r1.trans (r2.trans g))
-                    exact Concl.pre r02 km2 (L m2 hi2 km2) (post_conv rfl)
+                    exact Concl.pre' r02 km2 (L m2 hi2 km2) (post_conv rfl)
                 · simp only [hn2, if_false, Option.pure_def, Option.some.injEq, Prod.mk.injEq] at hex
                   obtain ⟨rfl, rfl, rfl⟩ := hex
-                  have hsc : ∀ m1, Keep p.w m m1 F → Safe p B ra lp Γ env2 F D o (pc + nC + nT + nE) m1 res2 cont := fun m1 km1 =>
-                    hs.sub (by simp only [noTry, Bool.and_eq_true]; exact fun h => h.1.2)
+                  have hsc : ∀ m1, Keep p.w m m1 (md.kb F p.w) → Safe p B dA ra lp md sb Γ env2 F D o (pc + nC + nT + nE) m1 res2 cont := fun m1 km1 =>
+                    hs.sub' (by simp only [noTry, Bool.and_eq_true]; exact fun h => h.1.2)
                       (by simp only [youLevel, Bool.and_eq_true]; exact fun h => h.1.2) km1 (convN env2 res2 hn2 _ _)
-                  have hsbd : Safe p B ra (pc + nC + nT, pc + nC + nT + nE + 2) Γ env1 F D o (pc + nC + nT) m0 res1 body := by
-                    rcases hs with h | ⟨h1, h2⟩
-                    · left; simp only [noTry, Bool.and_eq_true] at h; exact h.1.1
+                  have hsbd : Safe p B dA ra ⟨pc + nC + nT, pc + nC + nT + nE + 2, lp.vd⟩ md sb Γ env1 F D o (pc + nC + nT) m0 res1 body := by
+                    rcases hs with ⟨hmd, hvd, h⟩ | ⟨hmd, hvd, h1, hst, h2⟩
+                    · left; simp only [noTry, Bool.and_eq_true] at h; exact ⟨hmd, hvd, h.1.1⟩
                     · right
                       simp only [youLevel, Bool.and_eq_true] at h1
-                      refine ⟨h1.1.1, fun st1 hp1 => ?_⟩
+                      refine ⟨hmd, hvd, h1.1.1, fun e => by rw [km0.size]; exact hst e, fun st1 hp1 => ?_⟩
                       obtain ⟨pc1, m1⟩ := st1
                       obtain ⟨hpc1, hi1, k01⟩ := postNC m0 _ hp1
                       dsimp only at hpc1 hi1 k01
                       subst hpc1
-                      have km1 := km0.trans' k01
-                      have hcc := ih F D ra hra lp hlp cont Γ env1 (pc + nC + nT) o m1 env2 tr2 res2 hplE (by rw [hlenE]; omega) hi1 hd hwc (by omega) ho hb2 hck
+                      have km1 := km0.kb.trans' k01
+                      have hcc := ih F D ra hra lp hlp md sb cont Γ env1 (pc + nC + nT) o m1 env2 tr2 res2 hplE (by rw [hlenE]; omega) hi1 hd hwc (by omega) ho hb2 hck
                         (by rw [hlenE]; exact hsc m1 km1)
                       rw [hlenE] at hcc
-                      obtain ⟨st2, r2, hp2⟩ := hcc.2 (exec_no_defeat _ _ _ _ _ _ _ _ _ _ _ _ h1.1.2 hb2)
+                      obtain ⟨st2, r2, hp2⟩ := hcc.2 (nd (exec_no_defeat _ _ _ _ _ _ _ _ _ _ _ _ _ h1.1.2 hb2))
                       exact (r2.exec (h2 st2 (convN env2 res2 hn2 _ _ st2 (hp2.rebase km1)))).2
-                  have hbb := ih F D ra hra (pc + nC + nT, pc + nC + nT + nE + 2) hlpB body Γ env (pc + nC) o m0 env1 tr1 res1 hplT (by rw [hlenT]; omega) hinv0 hd hwb (by omega) ho hb1 hfo1
+                  have hbb := ih F D ra hra ⟨pc + nC + nT, pc + nC + nT + nE + 2, lp.vd⟩ hlpB md sb body Γ env (pc + nC) o m0 env1 tr1 res1 hplT (by rw [hlenT]; omega) hinv0 hd hwb (by omega) ho hb1 hfo1
                     (by rw [hlenT]; exact hsbd)
                   rw [hlenT] at hbb
-                  obtain ⟨st1, r1, hp1⟩ := hbb.2 hnd1
+                  obtain ⟨st1, r1, hp1⟩ := hbb.2 (nd hnd1)
                   obtain ⟨pc1, m1⟩ := st1
                   obtain ⟨hpc1, hi1, k01⟩ := postNC m0 _ hp1
                   dsimp only at hpc1 hi1 k01
                   subst hpc1
-                  have km1 := km0.trans' k01
-                  have hcc := ih F D ra hra lp hlp cont Γ env1 (pc + nC + nT) o m1 env2 tr2 res2 hplE (by rw [hlenE]; omega) hi1 hd hwc (by omega) ho hb2 hck
+                  have km1 := km0.kb.trans' k01
+                  have hcc := ih F D ra hra lp hlp md sb cont Γ env1 (pc + nC + nT) o m1 env2 tr2 res2 hplE (by rw [hlenE]; omega) hi1 hd hwc (by omega) ho hb2 hck
                     (by rw [hlenE]; exact hsc m1 km1)
                   rw [hlenE] at hcc
                   have r01 : Reach (sphinx p) ⟨pc, m⟩ tr1 ⟨pc + nC + nT, m1⟩ := by simpa using r0.trans r1
-                  exact Concl.pre r01 km1 hcc (convN env2 res2 hn2 _ _)
+                  exact Concl.pre' r01 km1 hcc (convN env2 res2 hn2 _ _)
             · rw [if_neg hn1] at hex
               by_cases hbk : res1 = .brk
               · -- `break`: the rest of the list, from the `break` label
@@ -1002,66 +972,67 @@ theorem cS_ok (lib : Placed p B) (fok : FnsOK p ck B fa fns) :
                   obtain ⟨env3, tr3, res3⟩ := rk
                   simp only [hk, Option.bind_some, Option.pure_def, Option.some.injEq, Prod.mk.injEq] at hex
                   obtain ⟨rfl, rfl, rfl⟩ := hex
-                  have contK : ∀ m1, SInv p Γ env1 m1 F D o ra → Keep p.w m m1 F →
-                      Concl p B ra lp Γ env3 F D o (pc + nC + nT + nE + 2)
-                        (pc + nC + nT + nE + 2 + (cS (cxOf p ck B) fa lp Γ (pc + nC + nT + nE + 2) o k).length) m1 tr3 res3 :=
-                    fun m1 hi1 km1 => ih F D ra hra lp hlp k Γ env1 (pc + nC + nT + nE + 2) o m1 env3 tr3 res3 hplK (by omega) hi1 hd hwk (by omega) ho hk hck
-                      (hs.sub (by simp only [noTry, Bool.and_eq_true]; exact fun h => h.2)
+                  have contK : ∀ m1, SInv p md Γ env1 m1 F D o ra → Keep p.w m m1 (md.kb F p.w) →
+                      Concl p B ra lp md Γ env3 F D o (pc + nC + nT + nE + 2)
+                        (pc + nC + nT + nE + 2 + (cS (cxOf p ck B dA) fa lp Γ (pc + nC + nT + nE + 2) o k).length) m1 tr3 res3 :=
+                    fun m1 hi1 km1 => ih F D ra hra lp hlp md sb k Γ env1 (pc + nC + nT + nE + 2) o m1 env3 tr3 res3 hplK (by omega) hi1 hd hwk (by omega) ho hk hck
+                      (hs.sub' (by simp only [noTry, Bool.and_eq_true]; exact fun h => h.2)
                         (by simp only [youLevel, Bool.and_eq_true]; exact fun h => h.2) km1 (post_conv rfl))
-                  have hsbd : Safe p B ra (pc + nC + nT, pc + nC + nT + nE + 2) Γ env1 F D o (pc + nC + nT) m0 .brk body := by
-                    rcases hs with h | ⟨h1, h2⟩
-                    · left; simp only [noTry, Bool.and_eq_true] at h; exact h.1.1
+                  have hsbd : Safe p B dA ra ⟨pc + nC + nT, pc + nC + nT + nE + 2, lp.vd⟩ md sb Γ env1 F D o (pc + nC + nT) m0 .brk body := by
+                    rcases hs with ⟨hmd, hvd, h⟩ | ⟨hmd, hvd, h1, hst, h2⟩
+                    · left; simp only [noTry, Bool.and_eq_true] at h; exact ⟨hmd, hvd, h.1.1⟩
                     · right
                       have h1' := h1
                       simp only [youLevel, Bool.and_eq_true] at h1
-                      refine ⟨h1.1.1, fun st1 hp1 => ?_⟩
+                      refine ⟨hmd, hvd, h1.1.1, fun e => by rw [km0.size]; exact hst e, fun st1 hp1 => ?_⟩
                       obtain ⟨pc1, m1⟩ := st1
                       simp only [Post] at hp1
                       obtain ⟨hpc1, hi1, k01⟩ := hp1
                       subst hpc1
-                      have km1 := km0.trans' k01
-                      obtain ⟨st', r2, hp2⟩ := (contK m1 hi1 km1).2 (exec_no_defeat _ _ _ _ _ _ _ _ _ _ _ _ h1.2 hk)
+                      have km1 := km0.kb.trans' k01
+                      obtain ⟨st', r2, hp2⟩ := (contK m1 hi1 km1).2 (nd (exec_no_defeat _ _ _ _ _ _ _ _ _ _ _ _ _ h1.2 hk))
                       exact (r2.exec (h2 st' (hp2.rebase km1))).2
-                  have hbb := ih F D ra hra (pc + nC + nT, pc + nC + nT + nE + 2) hlpB body Γ env (pc + nC) o m0 env1 tr1 .brk hplT (by rw [hlenT]; omega) hinv0 hd hwb (by omega) ho hb1 trivial
+                  have hbb := ih F D ra hra ⟨pc + nC + nT, pc + nC + nT + nE + 2, lp.vd⟩ hlpB md sb body Γ env (pc + nC) o m0 env1 tr1 .brk hplT (by rw [hlenT]; omega) hinv0 hd hwb (by omega) ho hb1 trivial
                     (by rw [hlenT]; exact hsbd)
-                  obtain ⟨st1, r1, hp1⟩ := hbb.2 (by decide)
+                  obtain ⟨st1, r1, hp1⟩ := hbb.2 (nd (by decide))
                   obtain ⟨pc1, m1⟩ := st1
                   simp only [Post] at hp1
                   obtain ⟨hpc1, hi1, k01⟩ := hp1
                   subst hpc1
-                  have km1 := km0.trans' k01
+                  have km1 := km0.kb.trans' k01
                   have r01 : Reach (sphinx p) ⟨pc, m⟩ tr1 ⟨pc + nC + nT + nE + 2, m1⟩ := by simpa using r0.trans r1
-                  exact Concl.pre r01 km1 (contK m1 hi1 km1) (post_conv rfl)
+                  exact Concl.pre' r01 km1 (contK m1 hi1 km1) (post_conv rfl)
               · rw [if_neg hbk] at hex
                 simp only [Option.pure_def, Option.some.injEq, Prod.mk.injEq] at hex
                 obtain ⟨rfl, rfl, rfl⟩ := hex
                 have hnn : res1 ≠ .norm := fun h => hn1 (Or.inl h)
                 have hnc : res1 ≠ .cnt := fun h => hn1 (Or.inr h)
-                have hsb1 : Safe p B ra (pc + nC + nT, pc + nC + nT + nE + 2) Γ env1 F D o (pc + nC + nT) m0 res1 body := by
-                  rcases hs with h | ⟨h1, h2⟩
-                  · left; simp only [noTry, Bool.and_eq_true] at h; exact h.1.1
+                have hsb1 : Safe p B dA ra ⟨pc + nC + nT, pc + nC + nT + nE + 2, lp.vd⟩ md sb Γ env1 F D o (pc + nC + nT) m0 res1 body := by
+                  rcases hs with ⟨hmd, hvd, h⟩ | ⟨hmd, hvd, h1, hst, h2⟩
+                  · left; simp only [noTry, Bool.and_eq_true] at h; exact ⟨hmd, hvd, h.1.1⟩
                   · right
                     simp only [youLevel, Bool.and_eq_true] at h1
-                    exact ⟨h1.1.1, fun st1 hp1 => h2 st1 (convB env1 res1 hnn hnc hbk _ _ m st1 (hp1.rebase km0))⟩
-                have hbb := ih F D ra hra (pc + nC + nT, pc + nC + nT + nE + 2) hlpB body Γ env (pc + nC) o m0 env1 tr1 res1 hplT (by rw [hlenT]; omega) hinv0 hd hwb (by omega) ho hb1 hck
+                    exact ⟨hmd, hvd, h1.1.1, fun e => by rw [km0.size]; exact hst e, fun st1 hp1 => h2 st1 (convB env1 res1 hnn hnc hbk _ _ m st1 (hp1.rebase km0.kb))⟩
+                have hbb := ih F D ra hra ⟨pc + nC + nT, pc + nC + nT + nE + 2, lp.vd⟩ hlpB md sb body Γ env (pc + nC) o m0 env1 tr1 res1 hplT (by rw [hlenT]; omega) hinv0 hd hwb (by omega) ho hb1 hck
                   (by rw [hlenT]; exact hsb1)
                 rw [hlenT] at hbb
-                refine ⟨fun hd' => r0.1 (hbb.1 hd'), fun hn' => ?_⟩
+                refine ⟨fun hd' hv => r0.1 (hbb.1 hd' hv), fun hn' => ?_⟩
                 obtain ⟨st', r2, hp⟩ := hbb.2 hn'
-                exact ⟨st', by simpa using r0.trans r2, convB env1 res1 hnn hnc hbk _ _ m st' (hp.rebase km0)⟩
+                exact ⟨st', by simpa using r0.trans r2, convB env1 res1 hnn hnc hbk _ _ m st' (hp.rebase km0.kb)⟩
     | tryUndo body handler k =>
-      rcases hs with h | ⟨h1, h2⟩
+      rcases hs with ⟨_, _, h⟩ | ⟨hmd, hvd, h1, hst, h2⟩
       · simp [noTry] at h
-      · simp only [youLevel, Bool.and_eq_true] at h1
+      · subst hmd
+        simp only [youLevel, Bool.and_eq_true] at h1
         obtain ⟨⟨hntb, hplh⟩, hyk⟩ := h1
         simp only [wfS, Bool.and_eq_true] at hwf
         obtain ⟨⟨hwb, hwh⟩, hwk⟩ := hwf
         simp only [pkS] at hpk
         simp only [cS] at hpl hB h2 ⊢
-        have hlenB : (cS (cxOf p ck B) fa lp Γ (pc + 1) o body).length = lenS ck body := cS_len _ _ _ _ _ _ _
-        have hlenH : (cS (cxOf p ck B) fa lp Γ (pc + 1 + lenS ck body + 2) o handler).length = lenS ck handler := cS_len _ _ _ _ _ _ _
-        generalize hnB : lenS ck body = nB at *
-        generalize hnH : lenS ck handler = nH at *
+        have hlenB : (cS (cxOf p ck B dA) fa lp Γ (pc + 1) o body).length = lenS ck lp.vd body := cS_len _ _ _ _ _ _ _
+        have hlenH : (cS (cxOf p ck B dA) fa lp Γ (pc + 1 + lenS ck lp.vd body + 2) o handler).length = lenS ck lp.vd handler := cS_len _ _ _ _ _ _ _
+        generalize hnB : lenS ck lp.vd body = nB at *
+        generalize hnH : lenS ck lp.vd handler = nH at *
         obtain ⟨hpl1234, hplK⟩ := hpl.append
         obtain ⟨hpl123, hplH⟩ := hpl1234.append
         obtain ⟨hpl12, hplG⟩ := hpl123.append
@@ -1072,7 +1043,7 @@ theorem cS_ok (lib : Placed p B) (fok : FnsOK p ck B fa fns) :
         have s0 := step_j (m := m) (placed_one hplJ) (ev_imm (pc + 1 + nB + 2))
         rw [show (pc + 1 + nB + 2) % p.M = pc + 1 + nB + 2 from Nat.mod_eq_of_lt (by unfold Prog.M; omega)] at s0
         have convN : ∀ (envx : Env) (resx : Res), resx ≠ .norm → ∀ (e1 e2 : Nat) st',
-            Post p B ra lp Γ envx F D o e1 m resx st' → Post p B ra lp Γ envx F D o e2 m resx st' := by
+            Post p B ra lp Md.you Γ envx F D o e1 m resx st' → Post p B ra lp Md.you Γ envx F D o e2 m resx st' := by
           intro envx resx hx e1 e2 st' h
           cases resx with
           | norm => exact absurd rfl hx
@@ -1085,15 +1056,15 @@ theorem cS_ok (lib : Placed p B) (fok : FnsOK p ck B fa fns) :
           | cnt => simpa [Post] using h
         -- the rest of the list, from any state at `end_try` reachable from `m`
         have contK : ∀ (env1 : Env) (m1 : Mem) (env3 : Env) (tr3 : List Ev) (res3 : Res),
-            SInv p Γ env1 m1 F D o ra → Keep p.w m m1 F →
+            SInv p Md.you Γ env1 m1 F D o ra → Keep p.w m m1 (Md.you.kb F p.w) →
             exec (256 ^ p.w) (8 * p.w) fns p.w f D o env1 k = some (env3, tr3, res3) → FaultOK ck fns p.w res3 →
-            (∀ st', Post p B ra lp Γ env3 F D o (pc + 1 + nB + 2 + nH + (cS (cxOf p ck B) fa lp Γ (pc + 1 + nB + 2 + nH) o k).length) m res3 st' →
+            (∀ st', Post p B ra lp Md.you Γ env3 F D o (pc + 1 + nB + 2 + nH + (cS (cxOf p ck B dA) fa lp Γ (pc + 1 + nB + 2 + nH) o k).length) m res3 st' →
               ¬ Halts (sphinx p) st') →
-            Concl p B ra lp Γ env3 F D o (pc + 1 + nB + 2 + nH)
-              (pc + 1 + nB + 2 + nH + (cS (cxOf p ck B) fa lp Γ (pc + 1 + nB + 2 + nH) o k).length) m1 tr3 res3 :=
+            Concl p B ra lp Md.you Γ env3 F D o (pc + 1 + nB + 2 + nH)
+              (pc + 1 + nB + 2 + nH + (cS (cxOf p ck B dA) fa lp Γ (pc + 1 + nB + 2 + nH) o k).length) m1 tr3 res3 :=
           fun env1 m1 env3 tr3 res3 hi1 km1 hk hck3 hfin =>
-            ih F D ra hra lp hlp k Γ env1 (pc + 1 + nB + 2 + nH) o m1 env3 tr3 res3 hplK (by omega) hi1 hd hwk (by omega) ho hk hck3
-              (Or.inr ⟨hyk, fun st' hp => hfin st' (hp.rebase km1)⟩)
+            ih F D ra hra lp hlp Md.you sb k Γ env1 (pc + 1 + nB + 2 + nH) o m1 env3 tr3 res3 hplK (by omega) hi1 hd hwk (by omega) ho hk hck3
+              (Or.inr ⟨rfl, hvd, hyk, fun e => by rw [km1.size]; exact hst e, fun st' hp => hfin st' (hp.rebase km1)⟩)
         simp only [exec] at hex
         cases hb1 : exec (256 ^ p.w) (8 * p.w) fns p.w f D o env body with
         | none => simp [hb1] at hex
@@ -1104,15 +1075,15 @@ theorem cS_ok (lib : Placed p B) (fok : FnsOK p ck B fa fns) :
           · -- the body would be defeated: the Turing jump goes to the handler, in the state before the try
             subst hdft
             simp only [if_true] at hex
-            have hbb := ih F D ra hra lp hlp body Γ env (pc + 1) o m env1 tr1 .defeat hplB (by rw [hlenB]; omega) hinv hd hwb (by omega) ho hb1
-              trivial (Or.inl hntb)
-            have jt : Reach (sphinx p) ⟨pc, m⟩ [] ⟨pc + 1 + nB + 2, m⟩ := Reach.jump_taken' (sys := sphinx p) s0 (hbb.1 rfl)
+            have hbb := ih F D ra hra lp hlp .plain sb body Γ env (pc + 1) o m env1 tr1 .defeat hplB (by rw [hlenB]; omega) (hinv.toMd (by intro a v h; cases h)) hd hwb (by omega) ho hb1
+              trivial (Or.inl ⟨(by intro h; cases h), (by intro h; rw [hvd] at h; cases h), hntb⟩)
+            have jt : Reach (sphinx p) ⟨pc, m⟩ [] ⟨pc + 1 + nB + 2, m⟩ := Reach.jump_taken' (sys := sphinx p) s0 (hbb.1 rfl hvd)
             cases hh2 : exec (256 ^ p.w) (8 * p.w) fns p.w f D o env handler with
             | none => simp [hh2] at hex
             | some rh =>
               obtain ⟨env2, tr2, res2⟩ := rh
               simp only [hh2, Option.bind_some] at hex
-              have hnd2 : res2 ≠ .defeat := exec_no_defeat _ _ _ _ _ _ _ _ _ _ _ _ (plain_youLevel _ hplh) hh2
+              have hnd2 : res2 ≠ .defeat := exec_no_defeat _ _ _ _ false _ _ _ _ _ _ _ _ (plain_youLevel _ _ hplh) hh2
               by_cases hn2 : res2 = .norm
               · subst hn2
                 simp only [if_true] at hex
@@ -1122,23 +1093,24 @@ theorem cS_ok (lib : Placed p B) (fok : FnsOK p ck B fa fns) :
                   obtain ⟨env3, tr3, res3⟩ := rk
                   simp only [hk, Option.bind_some, Option.pure_def, Option.some.injEq, Prod.mk.injEq] at hex
                   obtain ⟨rfl, rfl, rfl⟩ := hex
-                  have hhh := ih F D ra hra lp hlp handler Γ env (pc + 1 + nB + 2) o m env2 tr2 .norm hplH (by rw [hlenH]; omega) hinv hd hwh (by omega) ho hh2
-                    trivial (Or.inl (plain_noTry _ hplh))
+                  have hhh := ih F D ra hra lp hlp .plain sb handler Γ env (pc + 1 + nB + 2) o m env2 tr2 .norm hplH (by rw [hlenH]; omega) (hinv.toMd (by intro a v h; cases h)) hd hwh (by omega) ho hh2
+                    trivial (Or.inl ⟨(by intro h; cases h), (by intro h; rw [hvd] at h; cases h), plain_noTry _ hplh⟩)
                   rw [hlenH] at hhh
-                  obtain ⟨st2, r2, hp2⟩ := hhh.2 (by decide)
+                  obtain ⟨st2, r2, hp2⟩ := hhh.2 (nd (by decide))
+                  have hp2 := hp2.toYou
                   obtain ⟨pc2, m2⟩ := st2
                   simp only [Post] at hp2
                   obtain ⟨hpc2, hi2, km2⟩ := hp2
                   subst hpc2
                   have r02 : Reach (sphinx p) ⟨pc, m⟩ tr2 ⟨pc + 1 + nB + 2 + nH, m2⟩ := by simpa using jt.trans r2
-                  exact Concl.pre r02 km2 (contK env2 m2 env3 tr3 res3 hi2 km2 hk hck h2) (post_conv rfl)
+                  exact Concl.pre' r02 km2 (contK env2 m2 env3 tr3 res3 hi2 km2 hk hck h2) (post_conv rfl)
               · simp only [hn2, if_false, Option.pure_def, Option.some.injEq, Prod.mk.injEq] at hex
                 obtain ⟨rfl, rfl, rfl⟩ := hex
-                have hhh := ih F D ra hra lp hlp handler Γ env (pc + 1 + nB + 2) o m env2 tr2 res2 hplH (by rw [hlenH]; omega) hinv hd hwh (by omega) ho hh2
-                  hck (Or.inl (plain_noTry _ hplh))
-                simpa using Concl.pre jt (Keep.refl _ _ _) hhh (convN env2 res2 hn2 _ _)
+                have hhh := ih F D ra hra lp hlp .plain sb handler Γ env (pc + 1 + nB + 2) o m env2 tr2 res2 hplH (by rw [hlenH]; omega) (hinv.toMd (by intro a v h; cases h)) hd hwh (by omega) ho hh2
+                  hck (Or.inl ⟨(by intro h; cases h), (by intro h; rw [hvd] at h; cases h), plain_noTry _ hplh⟩)
+                simpa using Concl.pre jt (Keep.refl _ _ _) hhh.toYou (convN env2 res2 hn2 _ _)
           · simp only [hdft, if_false] at hex
-            have hbb := ih F D ra hra lp hlp body Γ env (pc + 1) o m env1 tr1 res1 hplB (by rw [hlenB]; omega) hinv hd hwb (by omega) ho hb1
+            have hbb := ih F D ra hra lp hlp .plain sb body Γ env (pc + 1) o m env1 tr1 res1 hplB (by rw [hlenB]; omega) (hinv.toMd (by intro a v h; cases h)) hd hwb (by omega) ho hb1
             by_cases hn : res1 = .norm
             · subst hn
               simp only [if_true] at hex
@@ -1148,42 +1120,44 @@ theorem cS_ok (lib : Placed p B) (fok : FnsOK p ck B fa fns) :
                 obtain ⟨env3, tr3, res3⟩ := rk
                 simp only [hk, Option.bind_some, Option.pure_def, Option.some.injEq, Prod.mk.injEq] at hex
                 obtain ⟨rfl, rfl, rfl⟩ := hex
-                have hbb' := hbb trivial (Or.inl hntb)
+                have hbb' := hbb trivial (Or.inl ⟨(by intro h; cases h), (by intro h; rw [hvd] at h; cases h), hntb⟩)
                 rw [hlenB] at hbb'
-                obtain ⟨st1, r1, hp1⟩ := hbb'.2 (by decide)
+                obtain ⟨st1, r1, hp1⟩ := hbb'.2 (nd (by decide))
+                have hp1 := hp1.toYou
                 obtain ⟨pc1, m1⟩ := st1
                 simp only [Post] at hp1
                 obtain ⟨hpc1, hi1, km1⟩ := hp1
                 subst hpc1
                 have g := goto_reach lib (pc + 1 + nB) (pc + 1 + nB + 2 + nH) m1 hplG hendM
                 have hkk := contK env1 m1 env3 tr3 res3 hi1 km1 hk hck h2
-                have hnd3 : res3 ≠ .defeat := exec_no_defeat _ _ _ _ _ _ _ _ _ _ _ _ hyk hk
-                obtain ⟨st', r3, hp3⟩ := hkk.2 hnd3
+                have hnd3 : res3 ≠ .defeat := exec_no_defeat _ _ _ _ _ _ _ _ _ _ _ _ _ hyk hk
+                obtain ⟨st', r3, hp3⟩ := hkk.2 (nd hnd3)
                 have rbody : Reach (sphinx p) ⟨pc + 1, m⟩ (tr1 ++ tr3) st' := by simpa using r1.trans (g.trans r3)
                 have nh1 : ¬ Halts (sphinx p) ⟨pc + 1, m⟩ := (rbody.exec (h2 st' (hp3.rebase km1))).2
                 have jn := Reach.jump_not_taken (sys := sphinx p) s0 (fun hh => absurd hh nh1)
                 exact ⟨fun hd' => absurd hd' hnd3, fun _ => ⟨st', by simpa using jn.trans rbody, hp3.rebase km1⟩⟩
             · simp only [hn, if_false, Option.pure_def, Option.some.injEq, Prod.mk.injEq] at hex
               obtain ⟨rfl, rfl, rfl⟩ := hex
-              have hbb' := hbb hck (Or.inl hntb)
-              obtain ⟨st1, r1, hp1⟩ := hbb'.2 hdft
-              have hp1' := convN env1 res1 hn _ (pc + 1 + nB + 2 + nH + (cS (cxOf p ck B) fa lp Γ (pc + 1 + nB + 2 + nH) o k).length) st1 hp1
+              have hbb' := hbb hck (Or.inl ⟨(by intro h; cases h), (by intro h; rw [hvd] at h; cases h), hntb⟩)
+              obtain ⟨st1, r1, hp1⟩ := hbb'.2 (nd hdft)
+              have hp1 := hp1.toYou
+              have hp1' := convN env1 res1 hn _ (pc + 1 + nB + 2 + nH + (cS (cxOf p ck B dA) fa lp Γ (pc + 1 + nB + 2 + nH) o k).length) st1 hp1
               have nh1 : ¬ Halts (sphinx p) ⟨pc + 1, m⟩ := (r1.exec (h2 st1 hp1')).2
               have jn := Reach.jump_not_taken (sys := sphinx p) s0 (fun hh => absurd hh nh1)
               exact ⟨fun hd' => absurd hd' hdft, fun _ => ⟨st1, by simpa using jn.trans r1, hp1'⟩⟩
     | retE e =>
       simp only [wfS] at hwf
       simp only [pkS] at hpk
-      have hg := gV_ok (ck := ck) lib Γ env F D e pc o (2 * p.w) m
-      have hreg := gV_reg (p := p) (ck := ck) (B := B) Γ env m F D e pc o (2 * p.w) hinv.vars hwf hpk ho
-      rcases hgv : gV (cxOf p ck B) Γ pc o (cxOf p ck B).r0 e with ⟨c, v'⟩
-      rw [show (cxOf p ck B).r0 = 2 * p.w from rfl] at hgv
+      have hg := gV_ok (ck := ck) (dA := dA) lib Γ env F D e pc o (2 * p.w) m
+      have hreg := gV_reg (p := p) (ck := ck) (dA := dA) (B := B) Γ env m F D e pc o (2 * p.w) hinv.vars hwf hpk ho
+      rcases hgv : gV (cxOf p ck B dA) Γ pc o (cxOf p ck B dA).r0 e with ⟨c, v'⟩
+      rw [show (cxOf p ck B dA).r0 = 2 * p.w from rfl] at hgv
       rw [hgv] at hg hreg
       simp only at hg hreg
-      have hcode : cS (cxOf p ck B) fa lp Γ pc o (.retE e)
-          = c ++ [ldSlot (cxOf p ck B) (3 * p.w) p.w, stSlot (cxOf p ck B) p.w (v'.arg (cxOf p ck B)),
+      have hcode : cS (cxOf p ck B dA) fa lp Γ pc o (.retE e)
+          = c ++ [ldSlot (cxOf p ck B dA) (3 * p.w) p.w, stSlot (cxOf p ck B dA) p.w (v'.arg (cxOf p ck B dA)),
               .j (.st (3 * p.w)), .halt] := by
-        simp only [cS]; rw [show (cxOf p ck B).r0 = 2 * p.w from rfl, hgv]; rfl
+        simp only [cS]; rw [show (cxOf p ck B dA).r0 = 2 * p.w from rfl, hgv]; rfl
       rw [hcode] at hpl hB hs ⊢
       obtain ⟨hpl1, hpl2⟩ := hpl.append
       simp only [List.length_append, List.length_cons, List.length_nil, Nat.zero_add] at hB hs ⊢
@@ -1214,7 +1188,7 @@ theorem cS_ok (lib : Placed p B) (fok : FnsOK p ck B fa fns) :
             · rw [hi]; trivial
             · rw [hr]; simp only [Away]; omega)]
           exact hval
-        have ev := ev_arg_any (ck := ck) (B := B) hw fr2 (pc + c.length + 1) v' harg
+        have ev := ev_arg_any (ck := ck) (dA := dA) (B := B) hw fr2 (pc + c.length + 1) v' harg
         rw [hval2] at ev
         have s1 := step_stSlot ck B p.w _ v hw fr2 c1 ev (Nat.le_refl _) (by omega)
         generalize hm3 : m2.writeLE (F - p.w) p.w v = m3 at *
@@ -1237,7 +1211,7 @@ theorem cS_ok (lib : Placed p B) (fok : FnsOK p ck B fa fns) :
             ((Reach.of_next (sys := sphinx p) s1).trans (Reach.jump_taken (sys := sphinx p) s2 s3)))
           simpa [evl] using this
         · simp only [Post]
-          refine ⟨trivial, ((k1.mono (by omega)).trans' (k12.mono (by omega))).trans' k23, ?_⟩
+          refine ⟨trivial, (show Keep p.w m m3 F from ((k1.mono (by omega)).trans' (k12.mono (by omega))).trans' k23).kb, ?_⟩
           rw [← hm3, Mem.readLE_writeLE_same _ _ _ _ (by have := k12.size; have := k1.size; omega)]
           exact Nat.mod_eq_of_lt hvM
     | callS g args k =>
@@ -1270,7 +1244,7 @@ theorem cS_ok (lib : Placed p B) (fok : FnsOK p ck B fa fns) :
             obtain ⟨rfl, rfl, rfl⟩ := hex
             obtain ⟨m1, r1, k1, _⟩ := (hcall g args trc none rv hpl1 (by omega) hba (by omega) hcw
               (fun r h => by cases h)).2.2 rfl
-            have hkk := ih F D ra hra lp hlp k Γ env _ o m1 envk trk resk hpl2 (by omega)
+            have hkk := ih F D ra hra lp hlp md sb k Γ env _ o m1 envk trk resk hpl2 (by omega)
               (hinv.keep k1 ho) hd hwk (by omega) ho hk hck
               (hs.sub (by simp [noTry]) (by simp [youLevel]) (k1.mono (by omega)) (post_conv (by omega)))
             exact Concl.pre r1 (k1.mono (by omega)) hkk (post_conv (by omega))
@@ -1308,8 +1282,8 @@ theorem cS_ok (lib : Placed p B) (fok : FnsOK p ck B fa fns) :
               obtain ⟨m1, r1, k1, hv1⟩ := (hcall g args trc none (some v) hpl1 (by omega) hba (by omega) hcw
                 (fun r h => by cases h)).2.2 rfl
               obtain ⟨hinv1, hd1⟩ := decl_inv hinv hd x v k1 (hv1 v rfl) hxn ho
-              have conv : ∀ (e1 e2 : Nat), e1 = e2 → ∀ st', Post p B ra lp ((x, o + p.w) :: Γ) envk F D (o + p.w) e1 m resk st' →
-                  Post p B ra lp Γ envk F D o e2 m resk st' := by
+              have conv : ∀ (e1 e2 : Nat), e1 = e2 → ∀ st', Post p B ra lp md ((x, o + p.w) :: Γ) envk F D (o + p.w) e1 m resk st' →
+                  Post p B ra lp md Γ envk F D o e2 m resk st' := by
                 intro e1 e2 he st' hpost
                 subst he
                 cases resk with
@@ -1319,7 +1293,10 @@ theorem cS_ok (lib : Placed p B) (fok : FnsOK p ck B fa fns) :
                 | returned => simpa [Post] using hpost
                 | div0 => simpa [Post] using hpost
                 | ovf => simpa [Post] using hpost
-                | defeat => simpa [Post] using hpost
+                | defeat =>
+                  simp only [Post] at hpost ⊢
+                  obtain ⟨a, v, h1, h2, h3, h4⟩ := hpost
+                  exact ⟨a, v, h1, h2, decl_back hinv x h3 hxn, h4⟩
                 | retv v => simpa [Post] using hpost
                 | brk =>
                   simp only [Post] at hpost ⊢
@@ -1327,7 +1304,7 @@ theorem cS_ok (lib : Placed p B) (fok : FnsOK p ck B fa fns) :
                 | cnt =>
                   simp only [Post] at hpost ⊢
                   exact ⟨hpost.1, decl_back hinv x hpost.2.1 hxn, hpost.2.2⟩
-              have hkk := ih F D ra hra lp hlp k ((x, o + p.w) :: Γ) (upd env x v) _ (o + p.w) m1 envk trk resk hpl2 (by omega)
+              have hkk := ih F D ra hra lp hlp md sb k ((x, o + p.w) :: Γ) (upd env x v) _ (o + p.w) m1 envk trk resk hpl2 (by omega)
                 hinv1 hd1 (by simpa using hwk) (by omega) (by omega) hk hck
                 (hs.sub (by simp [noTry]) (by simp [youLevel]) (k1.mono (by omega)) (conv _ _ (by omega)))
               exact Concl.pre r1 (k1.mono (by omega)) hkk (conv _ _ (by omega))
@@ -1335,11 +1312,11 @@ theorem cS_ok (lib : Placed p B) (fok : FnsOK p ck B fa fns) :
       simp only [wfS, Bool.and_eq_true] at hwf
       obtain ⟨⟨hxin, hba⟩, hwk⟩ := hwf
       simp only [pkS] at hpk
-      have hcode : cS (cxOf p ck B) fa lp Γ pc o (.assignCall x g args k)
-          = ((cCall (cxOf p ck B) fa Γ pc o g args ++
-              [ldSlot (cxOf p ck B) (3 * p.w) (o + p.w), stSlot (cxOf p ck B) (look Γ x) (.st (3 * p.w))])) ++
-            cS (cxOf p ck B) fa lp Γ (pc + (cCall (cxOf p ck B) fa Γ pc o g args ++
-              [ldSlot (cxOf p ck B) (3 * p.w) (o + p.w), stSlot (cxOf p ck B) (look Γ x) (.st (3 * p.w))]).length) o k := by
+      have hcode : cS (cxOf p ck B dA) fa lp Γ pc o (.assignCall x g args k)
+          = ((cCall (cxOf p ck B dA) fa Γ pc o g args ++
+              [ldSlot (cxOf p ck B dA) (3 * p.w) (o + p.w), stSlot (cxOf p ck B dA) (look Γ x) (.st (3 * p.w))])) ++
+            cS (cxOf p ck B dA) fa lp Γ (pc + (cCall (cxOf p ck B dA) fa Γ pc o g args ++
+              [ldSlot (cxOf p ck B dA) (3 * p.w) (o + p.w), stSlot (cxOf p ck B dA) (look Γ x) (.st (3 * p.w))]).length) o k := by
         simp only [cS]; rfl
       rw [hcode] at hpl hB hs ⊢
       obtain ⟨hpl12, hpl3⟩ := hpl.append
@@ -1392,10 +1369,10 @@ theorem cS_ok (lib : Placed p B) (fok : FnsOK p ck B fa fns) :
               have hinv3 := assign_inv hw hinv2 hd x v hvM hxin hoD
               have km3 : Keep p.w m (m2.writeLE (F - look Γ x) p.w v) F :=
                 ((k1.mono (by omega)).trans' (k12.mono (by omega))).trans' (Keep.write _ _ _ _ _ _ (by omega) (by omega))
-              have hkk := ih F D ra hra lp hlp k Γ (upd env x v) _ o _ envk trk resk hpl3 (by omega)
+              have hkk := ih F D ra hra lp hlp md sb k Γ (upd env x v) _ o _ envk trk resk hpl3 (by omega)
                 hinv3 hd hwk (by omega) ho hk hck (hs.sub (by simp [noTry]) (by simp [youLevel]) km3 (post_conv (by omega)))
               have r01 : Reach (sphinx p) ⟨pc, m⟩ trc
-                  ⟨pc + ((cCall (cxOf p ck B) fa Γ pc o g args).length + 2), m2.writeLE (F - look Γ x) p.w v⟩ := by
+                  ⟨pc + ((cCall (cxOf p ck B dA) fa Γ pc o g args).length + 2), m2.writeLE (F - look Γ x) p.w v⟩ := by
                 have := r1.trans ((Reach.of_next (sys := sphinx p) s0).trans (Reach.of_next (sys := sphinx p) s1))
                 simpa [evl, Nat.add_assoc] using this
               exact Concl.pre r01 km3 hkk (post_conv (by omega))
@@ -1403,14 +1380,16 @@ theorem cS_ok (lib : Placed p B) (fok : FnsOK p ck B fa fns) :
       simp only [exec, Option.some.injEq, Prod.mk.injEq] at hex
       obtain ⟨rfl, rfl, rfl⟩ := hex
       simp only [cS] at hpl hB ⊢
-      have g := goto_reach lib pc lp.2 m hpl hlp.2
-      exact ⟨fun h => absurd h (by decide), fun _ => ⟨⟨lp.2, m⟩, g, by simp only [Post]; exact ⟨trivial, hinv, Keep.refl _ _ _⟩⟩⟩
+      have g := goto_reach lib pc lp.brk m hpl hlp.2
+      exact ⟨fun h => absurd h (by decide), fun _ => ⟨⟨lp.brk, m⟩, g, by simp only [Post]; exact ⟨trivial, hinv, Keep.refl _ _ _⟩⟩⟩
     | cnt =>
       simp only [exec, Option.some.injEq, Prod.mk.injEq] at hex
       obtain ⟨rfl, rfl, rfl⟩ := hex
       simp only [cS] at hpl hB ⊢
-      have g := goto_reach lib pc lp.1 m hpl hlp.1
-      exact ⟨fun h => absurd h (by decide), fun _ => ⟨⟨lp.1, m⟩, g, by simp only [Post]; exact ⟨trivial, hinv, Keep.refl _ _ _⟩⟩⟩
+      have g := goto_reach lib pc lp.cont m hpl hlp.1
+      exact ⟨fun h => absurd h (by decide), fun _ => ⟨⟨lp.cont, m⟩, g, by simp only [Post]; exact ⟨trivial, hinv, Keep.refl _ _ _⟩⟩⟩
+    | tryStop body handler k =>
+      exact tryStop_ok lib fok f ih F D ra hra lp hlp md sb body handler k Γ env pc o m env' tr res hpl hB hinv hd hwf hpk ho hex hck hs
 end
 
 end HidVerif.Core
